@@ -1,7 +1,8 @@
 (* C11 — export followed by import with SIMPLE MULTIPLEXERS: buses of RoundTripEnum's fragment whose
    messages may hold one multiplexer signal (top level) whose children are standard or enum signals, each
-   child in exactly one group (plain `m<k>` multiplexing; no SG_MUL_VAL_ is written); standard and enum
-   signals beside the multiplexer; descriptions everywhere.  No attributes.  The exporter writes a
+   child in one group (plain `m<k>`), in several groups or fixed (SG_MUL_VAL_ ranges written by the exporter
+   and expanded by the importer); standard and enum signals beside the multiplexer; descriptions everywhere.
+   No attributes.  The exporter writes a
    multiplexer's children in (group, position) order - comments and value descriptions follow that order -
    and the importer re-sorts all signals of a message by start bit, so the import side is proved for ANY
    order of the signals (permutation-invariant), and the projections are compared as permutations. *)
@@ -17,12 +18,22 @@ Open Scope Z_scope.
 Definition is_topb (s : signal) : bool := match s_parent s with None => true | Some _ => false end.
 Definition is_muxb (s : signal) : bool := match s_kind s with KMux => true | _ => false end.
 
-(* a multiplexed child: a standard or enum signal in exactly one group *)
+(* the groups of a multiplexed child: none listed = fixed (member of every group; then the multiplexer has at
+   least two groups), or a strictly ascending list of group ids that does not cover every group *)
+Definition groups_ok (gc : Z) (gs : list Z) : Prop :=
+  (gs = [] /\ 2 <= gc) \/ (gs <> [] /\ ascending (-1) gs /\ (forall g, In g gs -> g < gc) /\ Z.of_nat (length gs) < gc).
+Definition mem_of (gc : Z) (c : signal) : list Z := match s_groups c with [] => zrange 0 (Z.to_nat gc) | g => g end.
+
+(* a multiplexed child: a standard or enum signal *)
 Definition child_ok (es : list enum_def) (mx : signal) (c : signal) : Prop :=
-  s_kind c <> KMux /\ s_parent c = Some (s_id mx) /\ (exists g, s_groups c = [g] /\ 0 <= g < s_gcount mx) /\
+  s_kind c <> KMux /\ s_parent c = Some (s_id mx) /\ groups_ok (s_gcount mx) (s_groups c) /\
   s_startval c = fl_zero /\ s_sendtype c = 0 /\ s_attrs c = [] /\
   (s_kind c = KStandard -> 0 < s_size c < 2 ^ 32) /\ 0 <= s_rel c /\ s_rel c + sig_size es c <= s_gsize mx.
 Definition grp (c : signal) : Z := match s_groups c with g :: _ => g | [] => 0 end.
+(* what the group walk needs of a child *)
+Definition gok (mx c : signal) : Prop := s_kind c <> KMux /\ groups_ok (s_gcount mx) (s_groups c).
+Lemma child_gok : forall es mx c, child_ok es mx c -> gok mx c.
+Proof. intros es mx c [H1 [_ [H3 _]]]. split; assumption. Qed.
 
 (* a top-level signal: as in RoundTripEnum, or the multiplexer *)
 Definition top_ok (es : list enum_def) (s : signal) : Prop :=
@@ -41,7 +52,8 @@ Definition msigs_ok (es : list enum_def) (sigs : list signal) : Prop :=
   Forall (top_ok es) (filter is_topb sigs) /\
   (forall a b, In a sigs -> In b sigs -> is_muxb a = true -> is_muxb b = true -> a = b) /\
   (forall c, In c sigs -> is_topb c = false -> exists mx, In mx sigs /\ is_topb mx = true /\ is_muxb mx = true /\ child_ok es mx c) /\
-  (forall c c', In c sigs -> In c' sigs -> is_topb c = false -> is_topb c' = false -> c <> c' -> grp c = grp c' ->
+  (forall c c', In c sigs -> In c' sigs -> is_topb c = false -> is_topb c' = false -> c <> c' ->
+     (exists g, 0 <= g /\ in_group c g = true /\ in_group c' g = true) ->
      s_rel c + sig_size es c <= s_rel c' \/ s_rel c' + sig_size es c' <= s_rel c).
 
 Definition mmessage (es : list enum_def) (node_names : list string) (m : message) : Prop :=
@@ -63,7 +75,149 @@ Definition mbus (b : bus) : Prop :=
   flat_map (fun n => filter (fun m => String.eqb (m_sender m) (n_name n)) (b_messages b)) (b_nodes b) = b_messages b /\
   Forall enum_wf (b_enums b).
 
+(* ---------------- facts about group lists ---------------- *)
+Lemma ascending_lb : forall l prev x, ascending prev l -> In x l -> prev < x.
+Proof.
+  induction l as [|y r IH]; intros prev x H Hin; [destruct Hin|]. cbn in H. destruct H as [H1 H2].
+  destruct Hin as [<-|Hin]; [assumption|]. specialize (IH y x H2 Hin). lia.
+Qed.
+Lemma ascending_nodup : forall l prev, ascending prev l -> NoDup l.
+Proof.
+  induction l as [|y r IH]; intros prev H; [constructor|]. cbn in H. destruct H as [H1 H2]. constructor; [|eapply IH; eauto].
+  intros Hin. pose proof (ascending_lb r y y H2 Hin). lia.
+Qed.
+Lemma in_zrange : forall n from x, In x (zrange from n) <-> from <= x < from + Z.of_nat n.
+Proof.
+  induction n as [|n IH]; intros from x; cbn [zrange In]; [lia|]. rewrite IH. lia.
+Qed.
+Lemma mem_z_in : forall z l, mem_z z l = true <-> In z l.
+Proof.
+  intros z l. unfold mem_z. rewrite existsb_exists. split.
+  - intros [x [Hx He]]. apply Z.eqb_eq in He. subst. assumption.
+  - intros H. exists z. split; [assumption|apply Z.eqb_refl].
+Qed.
+(* the ids of [from, from+n) that lie in an ascending list are that list's elements in the range *)
+Lemma filter_zrange_ascending : forall n from gs, ascending (from - 1) gs -> (forall g, In g gs -> g < from + Z.of_nat n) ->
+  filter (fun id => mem_z id gs) (zrange from n) = gs.
+Proof.
+  induction n as [|n IH]; intros from gs Ha Hb; cbn [zrange filter].
+  - destruct gs as [|g r]; [reflexivity|]. exfalso. cbn in Ha. destruct Ha as [H1 _]. specialize (Hb g (or_introl eq_refl)). lia.
+  - destruct gs as [|g r]; [cbn [mem_z existsb]; apply (IH (from + 1) []); [exact I|intros g []]|].
+    cbn in Ha. destruct Ha as [H1 H2].
+    destruct (Z.eq_dec g from) as [->|Hne].
+    + replace (mem_z from (from :: r)) with true by (symmetry; apply mem_z_in; left; reflexivity). f_equal.
+      rewrite (filter_ext_in _ (fun id => mem_z id r)).
+      * apply (IH (from + 1) r); [replace (from + 1 - 1) with from by lia; assumption|intros x Hx; specialize (Hb x (or_intror Hx)); lia].
+      * intros id Hid. apply in_zrange in Hid. unfold mem_z. cbn [existsb]. replace (id =? from) with false by lia. reflexivity.
+    + replace (mem_z from (g :: r)) with false.
+      2:{ symmetry. destruct (mem_z from (g :: r)) eqn:E; [|reflexivity]. apply mem_z_in in E. destruct E as [E|E]; [lia|].
+          pose proof (ascending_lb r g from H2 E). lia. }
+      apply (IH (from + 1) (g :: r)); [cbn; split; [lia|assumption]|intros x Hx; specialize (Hb x Hx); lia].
+Qed.
+
+Section GroupFacts.
+  Variables (mx c : signal).
+  Hypothesis Hok : gok mx c.
+  Hypothesis Hgc : 1 <= s_gcount mx.
+  Let gc := s_gcount mx.
+
+  Lemma mem_of_nonempty : mem_of gc c <> [].
+  Proof.
+    destruct Hok as [_ [[Hg H2]|[Hne _]]]; unfold mem_of.
+    - rewrite Hg. fold gc in H2. destruct (Z.to_nat gc) eqn:E; [lia|cbn; discriminate].
+    - destruct (s_groups c); [contradiction|discriminate].
+  Qed.
+  Lemma mem_of_ascending : ascending (-1) (mem_of gc c) /\ (forall g, In g (mem_of gc c) -> g < gc).
+  Proof.
+    destruct Hok as [_ [[Hg H2]|[Hne [Ha [Hb _]]]]]; unfold mem_of.
+    - rewrite Hg. split.
+      + clear. generalize (Z.to_nat gc). intros n. assert (G : forall m from prev, prev < from -> ascending prev (zrange from m)).
+        { induction m as [|m IH]; intros from prev Hp; cbn; [exact I|]. split; [assumption|apply IH; lia]. }
+        apply G. lia.
+      + intros g Hg'. apply in_zrange in Hg'. fold gc in H2. lia.
+    - destruct (s_groups c) as [|g r] eqn:E; [contradiction|]. split; assumption.
+  Qed.
+  Lemma in_group_mem : forall id, 0 <= id < gc -> (in_group c id = true <-> In id (mem_of gc c)).
+  Proof.
+    intros id Hid. unfold in_group, mem_of. destruct (s_groups c) as [|g r]; [|apply mem_z_in].
+    split; [intros _; apply in_zrange; lia|reflexivity].
+  Qed.
+  Lemma grp_head : exists r, mem_of gc c = grp c :: r.
+  Proof.
+    pose proof mem_of_nonempty as Hn. unfold mem_of, grp in *. destruct (s_groups c) as [|g r] eqn:E.
+    - destruct (Z.to_nat gc) eqn:En; [contradiction|]. cbn. eauto.
+    - eauto.
+  Qed.
+  Lemma grp_range : 0 <= grp c < gc.
+  Proof.
+    destruct grp_head as [r Hr]. destruct mem_of_ascending as [Ha Hb]. rewrite Hr in Ha, Hb. cbn in Ha. destruct Ha as [H1 _].
+    specialize (Hb (grp c) (or_introl eq_refl)). lia.
+  Qed.
+  Lemma in_group_grp_true : in_group c (grp c) = true.
+  Proof. apply in_group_mem; [apply grp_range|]. destruct grp_head as [r ->]. left. reflexivity. Qed.
+  Lemma in_group_below : forall id, 0 <= id < grp c -> in_group c id = false.
+  Proof.
+    intros id Hid. destruct (in_group c id) eqn:E; [|reflexivity]. exfalso.
+    pose proof grp_range. apply in_group_mem in E; [|lia]. destruct grp_head as [r Hr]. rewrite Hr in E.
+    destruct mem_of_ascending as [Ha _]. rewrite Hr in Ha. cbn in Ha. destruct Ha as [_ Ha].
+    destruct E as [E|E]; [lia|]. pose proof (ascending_lb r (grp c) id Ha E). lia.
+  Qed.
+  (* the groups visited among the ids below j *)
+  Definition vis (j : Z) : list Z := filter (fun id => in_group c id) (zrange 0 (Z.to_nat j)).
+  Lemma vis_nil : forall j, 0 <= j <= gc -> (vis j = [] <-> j <= grp c).
+  Proof.
+    intros j Hj. unfold vis. split.
+    - intros H. destruct (Z_le_gt_dec j (grp c)) as [|Hgt]; [assumption|]. exfalso.
+      assert (Hin : In (grp c) (filter (fun id => in_group c id) (zrange 0 (Z.to_nat j)))).
+      { apply filter_In. split; [apply in_zrange; pose proof grp_range; lia|apply in_group_grp_true]. }
+      rewrite H in Hin. destruct Hin.
+    - intros H. apply Proofs.filter_nil. intros id Hid. apply in_zrange in Hid. apply in_group_below. lia.
+  Qed.
+  Lemma vis_succ : forall j, 0 <= j -> vis (j + 1) = vis j ++ (if in_group c j then [j] else []).
+  Proof.
+    intros j Hj. unfold vis. replace (Z.to_nat (j + 1)) with (S (Z.to_nat j)) by lia.
+    rewrite zrange_snoc, filter_app. cbn [filter]. replace (0 + Z.of_nat (Z.to_nat j)) with j by lia. destruct (in_group c j); reflexivity.
+  Qed.
+  Lemma vis_all : vis gc = mem_of gc c.
+  Proof.
+    unfold vis. destruct mem_of_ascending as [Ha Hb].
+    rewrite (filter_ext_in _ (fun id => mem_z id (mem_of gc c))).
+    - apply (filter_zrange_ascending _ 0); [exact Ha|intros g Hg; specialize (Hb g Hg); lia].
+    - intros id Hid. apply in_zrange in Hid. destruct (in_group c id) eqn:E.
+      + symmetry. apply mem_z_in. apply in_group_mem; [lia|assumption].
+      + symmetry. destruct (mem_z id (mem_of gc c)) eqn:E2; [|reflexivity]. apply mem_z_in in E2. apply in_group_mem in E2; [congruence|lia].
+  Qed.
+End GroupFacts.
+
 (* ---------------- what the exporter writes for a multiplexer ---------------- *)
+(* the accumulator with its SG_MUL_VAL_ list *)
+Definition with_ext (xs : list dextmux) (acc : eacc) : eacc :=
+  mkeacc (ea_comments acc) (ea_attrs acc) (ea_attrdefs acc) (ea_attrvals acc) (ea_valencs acc) xs (ea_messages acc) (ea_sigs acc) (ea_names acc) (ea_enums acc).
+Definition cacx (cms : list dcomment) (vs : list dvalenc) (xs : list dextmux) (msgs : list dmessage) (sigs : list dsignal) (L : list Z) : eacc :=
+  mkeacc cms [] [] [] vs xs msgs sigs [] L.
+
+Lemma export_assignment_ext : forall k n mi sg a xs acc,
+  export_assignment k n mi sg a (with_ext xs acc) = with_ext xs (export_assignment k n mi sg a acc).
+Proof. intros. unfold export_assignment, with_ext. cbn [ea_names]. destruct (export_attribute k _ (aa_def a)). reflexivity. Qed.
+Lemma fold_assignment_ext : forall k n mi sg l xs acc,
+  fold_left (fun a x => export_assignment k n mi sg x a) l (with_ext xs acc) = with_ext xs (fold_left (fun a x => export_assignment k n mi sg x a) l acc).
+Proof. intros k n mi sg l. induction l as [|x r IH]; intros xs acc; cbn [fold_left]; [reflexivity|]. rewrite export_assignment_ext. apply IH. Qed.
+
+Lemma export_signal_ext : forall es sigs order msgid recs many fuel s xs acc, s_kind s <> KMux ->
+  export_signal es sigs order msgid recs many fuel s (with_ext xs acc) = with_ext xs (export_signal es sigs order msgid recs many fuel s acc).
+Proof.
+  intros es sigs order msgid recs many fuel s xs acc Hk.
+  destruct fuel; cbn [export_signal]; destruct (String.eqb (s_desc s) EmptyString);
+    try (change (add_comment ?c (with_ext xs acc)) with (with_ext xs (add_comment c acc)));
+    rewrite fold_assignment_ext; destruct (s_kind s); try (exfalso; apply Hk; reflexivity); reflexivity.
+Qed.
+
+Lemma fold_add_extmux : forall l xs acc, fold_left (fun a e => add_extmux e a) l (with_ext xs acc) = with_ext (xs ++ l) acc.
+Proof.
+  induction l as [|e r IH]; intros xs acc; cbn [fold_left]; [rewrite app_nil_r; reflexivity|].
+  change (add_extmux e (with_ext xs acc)) with (with_ext (xs ++ [e]) acc). rewrite IH, <- app_assoc. reflexivity.
+Qed.
+
 Section MuxExport.
   Variables (es : list enum_def) (sigs : list signal) (order : byte_order) (msgid : Z) (recs : list string).
 
@@ -92,12 +246,12 @@ Section MuxExport.
     change (set_last_switch v (y :: (z :: q) ++ [x])) with (y :: set_last_switch v ((z :: q) ++ [x])). rewrite IH. reflexivity.
   Qed.
 
-  Lemma export_child : forall mx many fuel c cms vs msgs sg L,
+  Lemma export_child : forall mx many fuel c cms vs xs msgs sg L,
     NoDup (map s_id sigs) -> In mx sigs -> s_parent mx = None -> child_ok es mx c ->
-    export_signal es sigs order msgid recs many fuel c (cacc cms vs msgs sg L)
-    = cacc (cms ++ sig_cms msgid c) (vs ++ venc_e es msgid c) msgs (sg ++ [child_dsig mx 0 c]) (enums_step L c).
+    export_signal es sigs order msgid recs many fuel c (cacx cms vs xs msgs sg L)
+    = cacx (cms ++ sig_cms msgid c) (vs ++ venc_e es msgid c) xs msgs (sg ++ [child_dsig mx 0 c]) (enums_step L c).
   Proof.
-    intros mx many fuel c cms vs msgs sg L Hids Hmx Hpm [Hk [Hp [_ [Hv [Ht [Ha _]]]]]].
+    intros mx many fuel c cms vs xs msgs sg L Hids Hmx Hpm [Hk [Hp [_ [Hv [Ht [Ha _]]]]]].
     assert (Habs : abs_start (length sigs) sigs c = s_rel mx + sel_width mx + s_rel c).
     { destruct sigs as [|x r] eqn:Es; [destruct Hmx|]. rewrite <- Es in *.
       replace (length sigs) with (S (length r)) by (rewrite Es; reflexivity).
@@ -106,9 +260,12 @@ Section MuxExport.
     destruct fuel; cbn [export_signal]; rewrite Ha, Hv, Ht, Hp, Habs; cbn;
       destruct (String.eqb (s_desc c) EmptyString);
       destruct (s_kind c); try (exfalso; apply Hk; reflexivity); cbn;
-      unfold cacc, add_sig, add_comment, add_valenc, evals; cbn; rewrite ?app_nil_r; reflexivity.
+      unfold cacx, add_sig, add_comment, add_valenc, evals; cbn; rewrite ?app_nil_r; reflexivity.
   Qed.
 End MuxExport.
+
+Definition is_nil {A} (l : list A) : bool := match l with [] => true | _ => false end.
+Definition optl {A} (l : list A) : option (list A) := match l with [] => None | _ => Some l end.
 
 Section MuxWalk.
   Variables (es : list enum_def) (sigs : list signal) (order : byte_order) (msgid : Z) (recs : list string) (many : bool).
@@ -116,14 +273,13 @@ Section MuxWalk.
   Hypothesis Hids : NoDup (map s_id sigs).
   Hypothesis Hmx : In mx sigs.
   Hypothesis Hpm : s_parent mx = None.
+  Hypothesis Hgc : 1 <= s_gcount mx.
   Let K := children sigs mx.
-  Hypothesis HK : Forall (child_ok es mx) K.
-  Hypothesis HKn : NoDup (map (fun c => clear (s_name c)) K).
-
-  Lemma in_group_grp : forall c id, child_ok es mx c -> in_group c id = (id =? grp c).
-  Proof.
-    intros c id [_ [_ [[g [Hg _]] _]]]. unfold in_group, grp. rewrite Hg. unfold mem_z. cbn [existsb]. rewrite orb_false_r. reflexivity.
-  Qed.
+  Let gc := s_gcount mx.
+  Notation cn := (fun c : signal => clear (s_name c)).
+  Hypothesis HKc : Forall (child_ok es mx) K.
+  Hypothesis HK : Forall (gok mx) K.
+  Hypothesis HKn : NoDup (map cn K).
 
   Definition wstep (k : nat) (id : Z) (st : eacc * list string * list (string * list Z) * bool * bool) (c : signal) :=
     let '(acc, names, gmap, nested, extended) := st in
@@ -137,98 +293,175 @@ Section MuxWalk.
     | Some g => (acc, names, (cn, g ++ [id]) :: gmap, nested, true)
     end.
 
-  Lemma walk_inner : forall k id l S gmap names cms vs msgs sg L,
-    Forall (child_ok es mx) l ->
-    (forall cn v, lookup String.eqb cn gmap = Some v -> In cn S) ->
-    NoDup (map (fun c => clear (s_name c)) l) ->
-    (forall c, In c l -> in_group c id = true -> ~ In (clear (s_name c)) S) ->
-    exists gmap' names',
-      fold_left (wstep k id) l (cacc cms vs msgs sg L, names, gmap, false, false)
-      = (cacc (cms ++ flat_map (sig_cms msgid) (filter (fun c => in_group c id) l))
-              (vs ++ flat_map (venc_e es msgid) (filter (fun c => in_group c id) l)) msgs
-              (sg ++ map (child_dsig es order recs mx (u32 id)) (filter (fun c => in_group c id) l))
-              (fold_left enums_step (filter (fun c => in_group c id) l) L), names', gmap', false, false) /\
-      (forall cn v, lookup String.eqb cn gmap' = Some v -> In cn (S ++ map (fun c => clear (s_name c)) (filter (fun c => in_group c id) l))).
+  (* the first visit of a child: it is exported and the switch value of its line is the group being walked *)
+  Definition xstep (k : nat) (acc : eacc) (p : Z * signal) : eacc :=
+    let a := export_signal es sigs order msgid recs many k (snd p) acc in
+    set_sigs (set_last_switch (u32 (fst p)) (ea_sigs a)) a.
+
+  Lemma lookup_str_head : forall {V} k (v : V) l, lookup String.eqb k ((k, v) :: l) = Some v.
+  Proof. intros. cbn [lookup]. rewrite String.eqb_refl. reflexivity. Qed.
+  Lemma lookup_str_skip : forall {V} k k' (v : V) l, k <> k' -> lookup String.eqb k ((k', v) :: l) = lookup String.eqb k l.
+  Proof. intros V k k' v l H. cbn [lookup]. destruct (String.eqb k k') eqn:E; [apply String.eqb_eq in E; contradiction|reflexivity]. Qed.
+
+  Lemma walk_inner : forall k j l acc names gmap ext,
+    Forall (gok mx) l -> NoDup (map cn l) -> 0 <= j < gc ->
+    (forall c, In c l -> lookup String.eqb (cn c) gmap = optl (vis c j)) ->
+    exists gmap',
+      fold_left (wstep k j) l (acc, names, gmap, false, ext)
+      = (fold_left (xstep k) (map (pair j) (filter (fun c => j =? grp c) l)) acc,
+         names ++ map cn (filter (fun c => j =? grp c) l), gmap', false,
+         ext || existsb (fun c => in_group c j && negb (j =? grp c)) l) /\
+      (forall c, In c l -> lookup String.eqb (cn c) gmap' = optl (vis c (j + 1))) /\
+      (forall x, ~ In x (map cn l) -> lookup String.eqb x gmap' = lookup String.eqb x gmap).
   Proof.
-    intros k id l. induction l as [|c r IH]; intros S gmap names cms vs msgs sg L Hl HG Hnd HS; cbn [fold_left filter map flat_map].
-    - exists gmap, names. rewrite !app_nil_r. split; [reflexivity|exact HG].
+    intros k j l. induction l as [|c r IH]; intros acc names gmap ext Hl Hnd Hj HG; cbn [fold_left filter map existsb].
+    - exists gmap. rewrite app_nil_r, orb_false_r. split; [reflexivity|]. split; [intros c []|auto].
     - inversion Hl as [|? ? Hc Hr]; subst. cbn [map] in Hnd. inversion Hnd as [|? ? Hni Hndr]; subst.
-      unfold wstep at 2. destruct (in_group c id) eqn:Eg; cbn [negb].
-      + assert (Hnone : lookup String.eqb (clear (s_name c)) gmap = None).
-        { destruct (lookup String.eqb (clear (s_name c)) gmap) as [v|] eqn:El; [|reflexivity].
-          exfalso. apply (HS c (or_introl eq_refl) Eg). eapply HG. exact El. }
-        rewrite Hnone. rewrite (export_child es sigs order msgid recs mx many k c) by assumption.
-        assert (Hk : match s_kind c with KMux => true | _ => false end = false).
-        { destruct Hc as [Hk _]. destruct (s_kind c); try reflexivity. exfalso. apply Hk. reflexivity. }
-        rewrite Hk. cbn [orb].
-        replace (set_sigs (set_last_switch (u32 id) (ea_sigs (cacc (cms ++ sig_cms msgid c) (vs ++ venc_e es msgid c) msgs (sg ++ [child_dsig es order recs mx 0 c]) (enums_step L c))))
-                          (cacc (cms ++ sig_cms msgid c) (vs ++ venc_e es msgid c) msgs (sg ++ [child_dsig es order recs mx 0 c]) (enums_step L c)))
-          with (cacc (cms ++ sig_cms msgid c) (vs ++ venc_e es msgid c) msgs (sg ++ [child_dsig es order recs mx (u32 id) c]) (enums_step L c))
-          by (unfold cacc, set_sigs; cbn [ea_sigs ea_comments ea_attrs ea_attrdefs ea_attrvals ea_valencs ea_extmuxes ea_messages ea_names ea_enums];
-              rewrite set_last_switch_snoc, child_dsig_switch; reflexivity).
-        destruct (IH (S ++ [clear (s_name c)]) ((clear (s_name c), [id]) :: gmap) (names ++ [clear (s_name c)])
-                     (cms ++ sig_cms msgid c) (vs ++ venc_e es msgid c) msgs
-                     (sg ++ [child_dsig es order recs mx (u32 id) c]) (enums_step L c) Hr) as [gmap' [names' [E1 E2]]].
-        * intros cn v Hlk. cbn [lookup] in Hlk. destruct (String.eqb cn (clear (s_name c))) eqn:E.
-          -- apply String.eqb_eq in E. subst. apply in_or_app. right. left. reflexivity.
-          -- apply in_or_app. left. eapply HG. exact Hlk.
-        * assumption.
-        * intros c' Hc' Hg' Hin. apply in_app_or in Hin. destruct Hin as [Hin|[Hin|[]]].
-          -- apply (HS c' (or_intror Hc') Hg' Hin).
-          -- apply Hni. rewrite Hin. apply (in_map (fun c => clear (s_name c))). assumption.
-        * exists gmap', names'. split.
-          -- rewrite E1. cbn [map flat_map fold_left]. rewrite <- !app_assoc. reflexivity.
-          -- intros cn v Hlk. specialize (E2 cn v Hlk). cbn [map]. rewrite <- app_assoc in E2. exact E2.
-      + apply IH; try assumption. intros c' Hc'. apply HS. right. assumption.
+      pose proof (HG c (or_introl eq_refl)) as Hlk.
+      assert (HGr : forall gm, (forall x, x <> cn c -> lookup String.eqb x gm = lookup String.eqb x gmap) ->
+                forall c', In c' r -> lookup String.eqb (cn c') gm = optl (vis c' j)).
+      { intros gm Hgm c' Hc'. rewrite Hgm; [apply HG; right; assumption|]. intros Heq. apply Hni. rewrite <- Heq. apply (in_map cn). assumption. }
+      assert (Hkm : match s_kind c with KMux => true | _ => false end = false).
+      { destruct Hc as [Hk _]. destruct (s_kind c); try reflexivity. exfalso. apply Hk. reflexivity. }
+      pose proof (vis_succ mx c j ltac:(lia)) as Hvs.
+      unfold wstep at 2. destruct (in_group c j) eqn:Eg; cbn [negb andb].
+      + rewrite Hkm. cbn [orb]. rewrite Hlk.
+        destruct (vis c j) as [|v0 vr] eqn:Ev; cbn [optl].
+        * (* first visit: j is the child's first group *)
+          assert (Hjg : j = grp c).
+          { pose proof (proj1 (vis_nil mx c Hc Hgc j ltac:(fold gc; lia)) Ev) as H1.
+            destruct (Z_lt_ge_dec j (grp c)) as [Hlt|Hge]; [|lia].
+            rewrite (in_group_below mx c Hc Hgc j) in Eg by lia. discriminate. }
+          replace (j =? grp c) with true by lia. cbn [negb andb orb map fold_left].
+          destruct (IH (xstep k acc (j, c)) (names ++ [cn c]) ((cn c, [j]) :: gmap) ext Hr Hndr Hj) as [gmap' [E1 [E2 E3]]].
+          { apply HGr. intros x Hx. apply lookup_str_skip. assumption. }
+          exists gmap'. split; [|split].
+          -- assert (Hx : xstep k acc (j, c) = set_sigs (set_last_switch (u32 j) (ea_sigs (export_signal es sigs order msgid recs many k c acc)))
+                                                         (export_signal es sigs order msgid recs many k c acc)) by reflexivity.
+             rewrite <- Hx, E1. rewrite <- app_assoc. reflexivity.
+          -- intros c' [<-|Hc']; [|apply E2; assumption].
+             rewrite E3 by assumption. rewrite lookup_str_head, Hvs. reflexivity.
+          -- intros x Hx. rewrite E3 by (intros Hin; apply Hx; right; assumption). apply lookup_str_skip. intros Heq. apply Hx. left. symmetry. assumption.
+        * (* a further group of a child already exported *)
+          assert (Hjg : (j =? grp c) = false).
+          { destruct (j =? grp c) eqn:E; [|reflexivity]. apply Z.eqb_eq in E. exfalso.
+            assert (Hn : vis c j = []) by (apply (vis_nil mx c Hc Hgc j); [fold gc; lia|lia]). rewrite Hn in Ev. discriminate. }
+          rewrite Hjg. cbn [negb andb orb].
+          destruct (IH acc names ((cn c, (v0 :: vr) ++ [j]) :: gmap) true Hr Hndr Hj) as [gmap' [E1 [E2 E3]]].
+          { apply HGr. intros x Hx. apply lookup_str_skip. assumption. }
+          exists gmap'. split; [|split].
+          -- rewrite E1. rewrite orb_true_r. reflexivity.
+          -- intros c' [<-|Hc']; [|apply E2; assumption].
+             rewrite E3 by assumption. rewrite lookup_str_head, Hvs. reflexivity.
+          -- intros x Hx. rewrite E3 by (intros Hin; apply Hx; right; assumption). apply lookup_str_skip. intros Heq. apply Hx. left. symmetry. assumption.
+      + assert (Hjg : (j =? grp c) = false).
+        { destruct (j =? grp c) eqn:E; [|reflexivity]. apply Z.eqb_eq in E. rewrite E, (in_group_grp_true mx c Hc Hgc) in Eg. discriminate. }
+        rewrite Hjg. cbn [orb].
+        destruct (IH acc names gmap ext Hr Hndr Hj) as [gmap' [E1 [E2 E3]]].
+        { intros c' Hc'. apply HG. right. assumption. }
+        exists gmap'. split; [exact E1|]. split.
+        * intros c' [<-|Hc']; [|apply E2; assumption]. rewrite E3 by assumption. rewrite Hlk, Hvs, app_nil_r. reflexivity.
+        * intros x Hx. apply E3. intros Hin. apply Hx. right. assumption.
   Qed.
 
-  Definition wall (ids : list Z) : list signal := flat_map (fun id => filter (fun c => in_group c id) K) ids.
-  Definition wsigs (ids : list Z) : list dsignal :=
-    flat_map (fun id => map (child_dsig es order recs mx (u32 id)) (filter (fun c => in_group c id) K)) ids.
+  Definition wall (ids : list Z) : list signal := flat_map (fun id => filter (fun c => id =? grp c) K) ids.
+  Definition wpairs (ids : list Z) : list (Z * signal) := flat_map (fun id => map (pair id) (filter (fun c => id =? grp c) K)) ids.
 
-  Lemma walk_outer : forall k ids S gmap names cms vs msgs sg L,
-    NoDup ids ->
-    (forall cn v, lookup String.eqb cn gmap = Some v -> In cn S) ->
-    (forall c, In c K -> In (clear (s_name c)) S -> ~ In (grp c) ids) ->
-    exists gmap' names',
-      fold_left (fun st id => fold_left (wstep k id) K st) ids (cacc cms vs msgs sg L, names, gmap, false, false)
-      = (cacc (cms ++ flat_map (sig_cms msgid) (wall ids)) (vs ++ flat_map (venc_e es msgid) (wall ids)) msgs (sg ++ wsigs ids)
-              (fold_left enums_step (wall ids) L), names', gmap', false, false).
+  Lemma walk_outer : forall k n from acc names gmap ext,
+    0 <= from -> from + Z.of_nat n = gc ->
+    (forall c, In c K -> lookup String.eqb (cn c) gmap = optl (vis c from)) ->
+    exists gmap',
+      fold_left (fun st id => fold_left (wstep k id) K st) (zrange from n) (acc, names, gmap, false, ext)
+      = (fold_left (xstep k) (wpairs (zrange from n)) acc, names ++ map cn (wall (zrange from n)), gmap', false,
+         ext || existsb (fun id => existsb (fun c => in_group c id && negb (id =? grp c)) K) (zrange from n)) /\
+      (forall c, In c K -> lookup String.eqb (cn c) gmap' = optl (vis c gc)).
   Proof.
-    intros k ids. induction ids as [|id r IH]; intros S gmap names cms vs msgs sg L Hnd HG HS; cbn [fold_left wsigs wall flat_map].
-    - exists gmap, names. rewrite !app_nil_r. reflexivity.
-    - inversion Hnd as [|? ? Hni Hr]; subst.
-      destruct (walk_inner k id K S gmap names cms vs msgs sg L HK HG HKn) as [gmap1 [names1 [E1 E2]]].
-      { intros c Hc Hg Hin. apply (HS c Hc Hin). left. rewrite (in_group_grp c id) in Hg by (rewrite Forall_forall in HK; apply HK; assumption).
-        apply Z.eqb_eq in Hg. exact Hg. }
+    intros k n. induction n as [|n IH]; intros from acc names gmap ext H0 Hn HG; cbn [zrange fold_left wpairs wall flat_map existsb].
+    - exists gmap. rewrite app_nil_r, orb_false_r. split; [reflexivity|]. replace gc with from by lia. exact HG.
+    - destruct (walk_inner k from K acc names gmap ext HK HKn ltac:(lia) HG) as [gmap1 [E1 [E2 _]]].
       rewrite E1.
-      destruct (IH (S ++ map (fun c => clear (s_name c)) (filter (fun c => in_group c id) K)) gmap1 names1
-                   (cms ++ flat_map (sig_cms msgid) (filter (fun c => in_group c id) K))
-                   (vs ++ flat_map (venc_e es msgid) (filter (fun c => in_group c id) K)) msgs
-                   (sg ++ map (child_dsig es order recs mx (u32 id)) (filter (fun c => in_group c id) K))
-                   (fold_left enums_step (filter (fun c => in_group c id) K) L) Hr E2) as [gmap' [names' E]].
-      { intros c Hc Hin Hg. apply in_app_or in Hin. destruct Hin as [Hin|Hin].
-        - apply (HS c Hc Hin). right. assumption.
-        - apply in_map_iff in Hin. destruct Hin as [c' [Hn Hc']]. apply filter_In in Hc'. destruct Hc' as [Hc'K Hg'].
-          assert (c' = c) by (apply (NoDup_map_inj (fun c => clear (s_name c)) K); assumption). subst c'.
-          rewrite (in_group_grp c id) in Hg' by (rewrite Forall_forall in HK; apply HK; assumption).
-          apply Z.eqb_eq in Hg'. apply Hni. rewrite Hg'. exact Hg. }
-      exists gmap', names'. rewrite E. unfold wsigs, wall. rewrite !flat_map_app, fold_left_app, <- !app_assoc. reflexivity.
+      destruct (IH (from + 1) (fold_left (xstep k) (map (pair from) (filter (fun c => from =? grp c) K)) acc)
+                   (names ++ map cn (filter (fun c => from =? grp c) K)) gmap1
+                   (ext || existsb (fun c => in_group c from && negb (from =? grp c)) K) ltac:(lia) ltac:(lia) E2) as [gmap' [E3 E4]].
+      exists gmap'. split; [|exact E4]. rewrite E3. unfold wpairs, wall. rewrite fold_left_app, map_app, <- app_assoc, orb_assoc. reflexivity.
+  Qed.
+
+  (* the SG_MUL_VAL_ entries: one per child that is in several groups or fixed *)
+  Definition ext_of (c : signal) : list dextmux :=
+    if Nat.eqb (length (mem_of gc c)) 1 then [] else [mkdextmux msgid (clear (s_name mx)) (cn c) (ranges_of (mem_of gc c))].
+
+  Lemma ext_fold : forall (gmap : list (string * list Z)) l acc,
+    (forall c, In c l -> lookup String.eqb (cn c) gmap = Some (mem_of gc c)) ->
+    fold_left (fun acc cn0 =>
+        let g := match lookup String.eqb cn0 gmap with Some g => g | None => [] end in
+        if negb false && Nat.eqb (length g) 1 then acc
+        else add_extmux (mkdextmux msgid (clear (s_name mx)) cn0 (ranges_of g)) acc) (map cn l) acc
+    = fold_left (fun a e => add_extmux e a) (flat_map ext_of l) acc.
+  Proof.
+    intros gmap l. induction l as [|c r IH]; intros acc HG; cbn [map fold_left flat_map]; [reflexivity|].
+    rewrite (HG c (or_introl eq_refl)). cbn [negb andb]. rewrite fold_left_app.
+    assert (He : fold_left (fun a e => add_extmux e a) (ext_of c) acc
+                 = (if Nat.eqb (length (mem_of gc c)) 1 then acc else add_extmux (mkdextmux msgid (clear (s_name mx)) (cn c) (ranges_of (mem_of gc c))) acc))
+      by (unfold ext_of; destruct (Nat.eqb (length (mem_of gc c)) 1); reflexivity).
+    rewrite He. apply IH. intros c' Hc'. apply HG. right. assumption.
+  Qed.
+
+  (* no second visit: every child sits in exactly one group *)
+  Lemma no_revisit : existsb (fun id => existsb (fun c => in_group c id && negb (id =? grp c)) K) (zrange 0 (Z.to_nat gc)) = false ->
+    forall c, In c K -> ext_of c = [].
+  Proof.
+    intros H c Hc. rewrite Forall_forall in HK. pose proof (HK c Hc) as Hok. unfold ext_of.
+    destruct (grp_head mx c Hok) as [r Hr]. fold gc in Hr. rewrite Hr. destruct r as [|g2 r2]; [reflexivity|]. exfalso.
+    destruct (mem_of_ascending mx c Hok) as [Ha Hb]. fold gc in Ha, Hb. rewrite Hr in Ha, Hb. cbn in Ha. destruct Ha as [H1 [H2 _]].
+    assert (Hin : in_group c g2 = true) by (apply (in_group_mem mx c Hgc g2); [specialize (Hb g2 (or_intror (or_introl eq_refl))); fold gc; lia|fold gc; rewrite Hr; right; left; reflexivity]).
+    assert (existsb (fun id => existsb (fun c => in_group c id && negb (id =? grp c)) K) (zrange 0 (Z.to_nat gc)) = true); [|congruence].
+    apply existsb_exists. exists g2. split; [apply in_zrange; specialize (Hb g2 (or_intror (or_introl eq_refl))); lia|].
+    apply existsb_exists. exists c. split; [assumption|]. rewrite Hin. cbn [andb]. apply negb_true_iff. apply Z.eqb_neq. lia.
+  Qed.
+
+  (* the walk on the plain accumulator *)
+  Definition wsigs (ids : list Z) : list dsignal :=
+    flat_map (fun id => map (child_dsig es order recs mx (u32 id)) (filter (fun c => id =? grp c) K)) ids.
+
+  Lemma xsteps_cacx : forall k ids cms vs xs msgs sg L,
+    fold_left (xstep k) (wpairs ids) (cacx cms vs xs msgs sg L)
+    = cacx (cms ++ flat_map (sig_cms msgid) (wall ids)) (vs ++ flat_map (venc_e es msgid) (wall ids)) xs msgs (sg ++ wsigs ids)
+           (fold_left enums_step (wall ids) L).
+  Proof.
+    intros k ids. induction ids as [|id r IH]; intros cms vs xs msgs sg L; cbn [wpairs wall wsigs flat_map fold_left].
+    - rewrite !app_nil_r. reflexivity.
+    - rewrite fold_left_app.
+      assert (G : forall l cms vs sg L, (forall c, In c l -> child_ok es mx c) ->
+                fold_left (xstep k) (map (pair id) l) (cacx cms vs xs msgs sg L)
+                = cacx (cms ++ flat_map (sig_cms msgid) l) (vs ++ flat_map (venc_e es msgid) l) xs msgs
+                       (sg ++ map (child_dsig es order recs mx (u32 id)) l) (fold_left enums_step l L)).
+      { induction l as [|c q IHl]; intros cms0 vs0 sg0 L0 Hl; cbn [map fold_left flat_map]; [rewrite !app_nil_r; reflexivity|].
+        unfold xstep at 2. cbn [fst snd]. rewrite (export_child es sigs order msgid recs mx many k c) by (try assumption; apply Hl; left; reflexivity).
+        replace (set_sigs (set_last_switch (u32 id) (ea_sigs (cacx (cms0 ++ sig_cms msgid c) (vs0 ++ venc_e es msgid c) xs msgs (sg0 ++ [child_dsig es order recs mx 0 c]) (enums_step L0 c))))
+                          (cacx (cms0 ++ sig_cms msgid c) (vs0 ++ venc_e es msgid c) xs msgs (sg0 ++ [child_dsig es order recs mx 0 c]) (enums_step L0 c)))
+          with (cacx (cms0 ++ sig_cms msgid c) (vs0 ++ venc_e es msgid c) xs msgs (sg0 ++ [child_dsig es order recs mx (u32 id) c]) (enums_step L0 c))
+          by (unfold cacx, set_sigs; cbn [ea_sigs ea_comments ea_attrs ea_attrdefs ea_attrvals ea_valencs ea_extmuxes ea_messages ea_names ea_enums];
+              rewrite set_last_switch_snoc, child_dsig_switch; reflexivity).
+        rewrite IHl by (intros c' Hc'; apply Hl; right; assumption). rewrite <- !app_assoc. reflexivity. }
+      rewrite G by (intros c Hc; apply filter_In in Hc; rewrite Forall_forall in HKc; apply HKc; tauto).
+      rewrite IH. rewrite !flat_map_app, fold_left_app, <- !app_assoc. reflexivity.
   Qed.
 End MuxWalk.
 
 (* the signals of a message in export order: the top-level signals in list order, the multiplexer followed by
-   its children in (group, position) order *)
+   its children in (first group, position) order *)
 Definition walk_of (sigs : list signal) (t : signal) : list signal :=
-  flat_map (fun id => filter (fun c => in_group c id) (children sigs t)) (zrange 0 (Z.to_nat (s_gcount t))).
+  flat_map (fun id => filter (fun c => id =? grp c) (children sigs t)) (zrange 0 (Z.to_nat (s_gcount t))).
 Definition tx (sigs : list signal) (t : signal) : list signal := t :: (if is_muxb t then walk_of sigs t else []).
 Definition SX (m : message) : list signal := flat_map (tx (m_signals m)) (filter is_topb (m_signals m)).
+(* the SG_MUL_VAL_ entries a top-level signal contributes *)
+Definition texts (msgid : Z) (sigs : list signal) (t : signal) : list dextmux :=
+  if is_muxb t then flat_map (ext_of msgid t) (walk_of sigs t) else [].
 
 Lemma zrange_nodup : forall n from, NoDup (zrange from n).
 Proof.
   induction n as [|n IH]; intros from; cbn [zrange]; constructor; [|apply IH].
-  assert (H : forall m f x, In x (zrange f m) -> f <= x) by (induction m as [|m IHm]; intros f x Hx; [destruct Hx|destruct Hx as [<-|Hx]; [lia|apply IHm in Hx; lia]]).
-  intros Hin. apply H in Hin. lia.
+  intros Hin. apply in_zrange in Hin. lia.
 Qed.
 
 (* the signals a top-level signal contributes to BO_ *)
@@ -241,46 +474,69 @@ Definition tdsigs (es : list enum_def) (sigs : list signal) (order : byte_order)
 Definition kids_ok (es : list enum_def) (sigs : list signal) (mx : signal) : Prop :=
   Forall (child_ok es mx) (children sigs mx) /\ NoDup (map (fun c => clear (s_name c)) (children sigs mx)).
 
-Lemma export_top : forall es sigs order msgid recs k s cms vs msgs sg L,
+Lemma export_top : forall es sigs order msgid recs k s cms vs xs msgs sg L,
   NoDup (map s_id sigs) -> In s sigs -> top_ok es s -> (is_muxb s = true -> kids_ok es sigs s) ->
-  export_signal es sigs order msgid recs false (S k) s (cacc cms vs msgs sg L)
-  = cacc (cms ++ flat_map (sig_cms msgid) (tx sigs s)) (vs ++ flat_map (venc_e es msgid) (tx sigs s)) msgs
+  export_signal es sigs order msgid recs false (S k) s (cacx cms vs xs msgs sg L)
+  = cacx (cms ++ flat_map (sig_cms msgid) (tx sigs s)) (vs ++ flat_map (venc_e es msgid) (tx sigs s)) (xs ++ texts msgid sigs s) msgs
          (sg ++ tdsigs es sigs order recs s) (fold_left enums_step (tx sigs s) L).
 Proof.
-  intros es sigs order msgid recs k s cms vs msgs sg L Hids Hin Htop Hkids.
+  intros es sigs order msgid recs k s cms vs xs msgs sg L Hids Hin Htop Hkids.
   destruct (s_kind s) eqn:Ek.
-  - unfold tdsigs, tx, is_muxb. rewrite Ek. cbn [flat_map fold_left]. rewrite !app_nil_r. apply export_signal_e.
-    destruct Htop as [H1 [H2 [H3 [H4 [H5 [H6 H7]]]]]]. rewrite Ek in H7.
+  - unfold tdsigs, tx, texts, is_muxb. rewrite Ek. cbn [flat_map fold_left]. rewrite !app_nil_r.
+    change (cacx cms vs xs msgs sg L) with (with_ext xs (cacc cms vs msgs sg L)). rewrite export_signal_ext by (rewrite Ek; discriminate).
+    rewrite export_signal_e; [reflexivity|]. destruct Htop as [H1 [H2 [H3 [H4 [H5 [H6 H7]]]]]]. rewrite Ek in H7.
     repeat split; try assumption. rewrite Ek. assumption.
-  - unfold tdsigs, tx, is_muxb. rewrite Ek. cbn [flat_map fold_left]. rewrite !app_nil_r. apply export_signal_e.
-    destruct Htop as [H1 [H2 [H3 [H4 [H5 [H6 H7]]]]]].
+  - unfold tdsigs, tx, texts, is_muxb. rewrite Ek. cbn [flat_map fold_left]. rewrite !app_nil_r.
+    change (cacx cms vs xs msgs sg L) with (with_ext xs (cacc cms vs msgs sg L)). rewrite export_signal_ext by (rewrite Ek; discriminate).
+    rewrite export_signal_e; [reflexivity|]. destruct Htop as [H1 [H2 [H3 [H4 [H5 [H6 H7]]]]]].
     repeat split; try assumption. rewrite Ek. exact I.
-  - destruct Htop as [Hp [Hg [Hv [Ht [Ha [Hr Hm]]]]]]. rewrite Ek in Hm.
+  - destruct Htop as [Hp [Hg [Hv [Ht [Ha [Hr Hm]]]]]]. rewrite Ek in Hm. destruct Hm as [[Hg1 Hg2] Hgs].
     destruct (Hkids ltac:(unfold is_muxb; rewrite Ek; reflexivity)) as [HK HKn].
-    unfold tdsigs, tx, is_muxb. rewrite Ek. cbn [flat_map fold_left].
+    assert (HKg : Forall (gok s) (children sigs s)) by (eapply Forall_impl; [|exact HK]; intros c Hc; eapply child_gok; eauto).
+    unfold tdsigs, tx, texts, is_muxb. rewrite Ek. cbn [flat_map fold_left].
     unfold sig_cms at 1, opt_cm, venc_e at 1, enums_step at 2. rewrite Ek. cbn [app].
     cbn [export_signal]. rewrite Ha, Hv, Ht, Hp, Ek. cbn [fl_is_zero fm fl_zero Z.eqb app fold_left sort_attrs sort_by fold_right orb].
     rewrite abs_start_top by assumption.
-    assert (Hcm : (if String.eqb (s_desc s) EmptyString then cacc cms vs msgs sg L
-                   else add_comment (mkdcomment OSignal (s_desc s) EmptyString msgid (clear (s_name s))) (cacc cms vs msgs sg L))
-                  = cacc (cms ++ (if String.eqb (s_desc s) EmptyString then [] else [mkdcomment OSignal (s_desc s) EmptyString msgid (clear (s_name s))])) vs msgs sg L).
+    assert (Hcm : (if String.eqb (s_desc s) EmptyString then cacx cms vs xs msgs sg L
+                   else add_comment (mkdcomment OSignal (s_desc s) EmptyString msgid (clear (s_name s))) (cacx cms vs xs msgs sg L))
+                  = cacx (cms ++ (if String.eqb (s_desc s) EmptyString then [] else [mkdcomment OSignal (s_desc s) EmptyString msgid (clear (s_name s))])) vs xs msgs sg L).
     { destruct (String.eqb (s_desc s) EmptyString); [rewrite app_nil_r|]; reflexivity. }
     rewrite Hcm.
-    change (add_sig ?d (cacc ?c ?v ?m ?g ?l)) with (cacc c v m (g ++ [d]) l).
-    destruct (walk_outer es sigs order msgid recs false s Hids Hin Hp HK HKn k (zrange 0 (Z.to_nat (s_gcount s))) [] [] []
-                (cms ++ (if String.eqb (s_desc s) EmptyString then [] else [mkdcomment OSignal (s_desc s) EmptyString msgid (clear (s_name s))]))
-                vs msgs (sg ++ [mux_dsig order recs s]) L (zrange_nodup _ _)) as [gmap' [names' E]].
-    + intros cn v Hl. discriminate Hl.
-    + intros c _ [].
-    + match goal with |- context[fold_left ?f (zrange 0 ?n) ?init] =>
-        replace (fold_left f (zrange 0 n) init) with
-          (cacc ((cms ++ (if String.eqb (s_desc s) EmptyString then [] else [mkdcomment OSignal (s_desc s) EmptyString msgid (clear (s_name s))]))
-                 ++ flat_map (sig_cms msgid) (wall sigs s (zrange 0 (Z.to_nat (s_gcount s)))))
-                (vs ++ flat_map (venc_e es msgid) (wall sigs s (zrange 0 (Z.to_nat (s_gcount s))))) msgs
-                ((sg ++ [mux_dsig order recs s]) ++ wsigs es sigs order recs s (zrange 0 (Z.to_nat (s_gcount s))))
-                (fold_left enums_step (wall sigs s (zrange 0 (Z.to_nat (s_gcount s)))) L), names', gmap', false, false)
-          by (symmetry; exact E) end.
-      cbn [negb andb]. rewrite <- !app_assoc. reflexivity.
+    change (add_sig ?d (cacx ?c ?v ?x ?m ?g ?l)) with (cacx c v x m (g ++ [d]) l).
+    set (cms1 := cms ++ (if String.eqb (s_desc s) EmptyString then [] else [mkdcomment OSignal (s_desc s) EmptyString msgid (clear (s_name s))])).
+    destruct (walk_outer es sigs order msgid recs false s Hg1 HKg HKn k (Z.to_nat (s_gcount s)) 0
+                (cacx cms1 vs xs msgs (sg ++ [mux_dsig order recs s]) L) [] [] false ltac:(lia) ltac:(lia)) as [gmap' [E EG]].
+    { intros c _. cbn. reflexivity. }
+    match goal with |- context[fold_left ?f (zrange 0 ?n) ?init] =>
+      replace (fold_left f (zrange 0 n) init) with
+        (fold_left (xstep es sigs order msgid recs false k) (wpairs sigs s (zrange 0 (Z.to_nat (s_gcount s)))) (cacx cms1 vs xs msgs (sg ++ [mux_dsig order recs s]) L),
+         [] ++ map (fun c => clear (s_name c)) (wall sigs s (zrange 0 (Z.to_nat (s_gcount s)))), gmap', false,
+         false || existsb (fun id => existsb (fun c => in_group c id && negb (id =? grp c)) (children sigs s)) (zrange 0 (Z.to_nat (s_gcount s))))
+        by (symmetry; exact E) end.
+    cbn [orb app].
+    rewrite (xsteps_cacx es sigs order msgid recs false s Hids Hin Hp HK).
+    set (W := wall sigs s (zrange 0 (Z.to_nat (s_gcount s)))).
+    assert (HW : forall c, In c W -> In c (children sigs s)).
+    { intros c Hc. unfold W, wall in Hc. apply in_flat_map in Hc. destruct Hc as [id [_ Hc]]. apply filter_In in Hc. tauto. }
+    assert (Hfin : forall acc,
+      (if negb (existsb (fun id => existsb (fun c => in_group c id && negb (id =? grp c)) (children sigs s)) (zrange 0 (Z.to_nat (s_gcount s)))) && negb false
+       then acc
+       else fold_left (fun acc cn0 =>
+              let g := match lookup String.eqb cn0 gmap' with Some g => g | None => [] end in
+              if negb false && Nat.eqb (length g) 1 then acc
+              else add_extmux (mkdextmux msgid (clear (s_name s)) cn0 (ranges_of g)) acc) (map (fun c => clear (s_name c)) W) acc)
+      = fold_left (fun a e => add_extmux e a) (flat_map (ext_of msgid s) W) acc).
+    { intros acc. destruct (existsb _ (zrange 0 (Z.to_nat (s_gcount s)))) eqn:Ee; cbn [negb andb].
+      - apply (ext_fold msgid s gmap' W acc). intros c Hc. rewrite (EG c (HW c Hc)).
+        rewrite Forall_forall in HKg. rewrite (vis_all s c (HKg c (HW c Hc)) Hg1).
+        pose proof (mem_of_nonempty s c (HKg c (HW c Hc))) as Hne. destruct (mem_of (s_gcount s) c); [contradiction|reflexivity].
+      - replace (flat_map (ext_of msgid s) W) with (@nil dextmux); [reflexivity|].
+        symmetry. induction W as [|c r IHW]; [reflexivity|]. cbn [flat_map].
+        rewrite (no_revisit sigs msgid s Hg1 HKg Ee c (HW c (or_introl eq_refl))). apply IHW. intros x Hx. apply HW. right. assumption. }
+    rewrite Hfin.
+    change (cacx ?c ?v xs ?m ?g ?l) with (with_ext xs (cacx c v [] m g l)). rewrite fold_add_extmux.
+    unfold with_ext, cacx, cms1, W. cbn [ea_comments ea_attrs ea_attrdefs ea_attrvals ea_valencs ea_messages ea_sigs ea_names ea_enums].
+    unfold walk_of. rewrite <- !app_assoc. reflexivity.
 Qed.
 
 (* ---------------- messages ---------------- *)
@@ -314,13 +570,14 @@ Proof.
   pose proof (top_size_pos es s Hps). lia.
 Qed.
 
-Lemma export_tops : forall es sigs order msgid recs k l cms vs msgs sg L,
+Lemma export_tops : forall es sigs order msgid recs k l cms vs xs msgs sg L,
   NoDup (map s_id sigs) -> (forall s, In s l -> In s sigs /\ top_ok es s /\ (is_muxb s = true -> kids_ok es sigs s)) ->
-  fold_left (fun a s => export_signal es sigs order msgid recs false (S k) s a) l (cacc cms vs msgs sg L)
-  = cacc (cms ++ flat_map (sig_cms msgid) (flat_map (tx sigs) l)) (vs ++ flat_map (venc_e es msgid) (flat_map (tx sigs) l)) msgs
+  fold_left (fun a s => export_signal es sigs order msgid recs false (S k) s a) l (cacx cms vs xs msgs sg L)
+  = cacx (cms ++ flat_map (sig_cms msgid) (flat_map (tx sigs) l)) (vs ++ flat_map (venc_e es msgid) (flat_map (tx sigs) l))
+         (xs ++ flat_map (texts msgid sigs) l) msgs
          (sg ++ flat_map (tdsigs es sigs order recs) l) (fold_left enums_step (flat_map (tx sigs) l) L).
 Proof.
-  intros es sigs order msgid recs k l. induction l as [|s r IH]; intros cms vs msgs sg L Hids H; cbn [fold_left flat_map].
+  intros es sigs order msgid recs k l. induction l as [|s r IH]; intros cms vs xs msgs sg L Hids H; cbn [fold_left flat_map].
   - rewrite !app_nil_r. reflexivity.
   - destruct (H s (or_introl eq_refl)) as [H1 [H2 H3]]. rewrite export_top by assumption.
     rewrite IH by (try assumption; intros x Hx; apply H; right; assumption).
@@ -330,6 +587,8 @@ Qed.
 Definition dmsg_m (es : list enum_def) (m : message) : dmessage :=
   mkdmessage (u32 (m_canid m)) (clear (m_name m)) (u32 (m_size m)) (clear (m_sender m))
              (flat_map (tdsigs es (m_signals m) (m_order m) (recs_out m)) (filter is_topb (m_signals m))).
+Definition msg_exts (m : message) : list dextmux := flat_map (texts (u32 (m_canid m)) (m_signals m)) (filter is_topb (m_signals m)).
+Definition bus_exts (b : bus) : list dextmux := flat_map msg_exts (b_messages b).
 
 (* the message / the bus with its signals listed in export order (comments and value descriptions follow it) *)
 Definition xmsg (m : message) : message := set_m_signals m (SX m).
@@ -356,55 +615,55 @@ Proof.
   assert (a = b) by (apply Huniq; assumption). subst b. inversion Hnd as [|? ? Hni _]; subst. apply Hni. left. reflexivity.
 Qed.
 
-Lemma export_message_m : forall names es m cms vs msgs sigs0 L,
+Lemma export_message_m : forall names es m cms vs xs msgs sigs0 L,
   mmessage es names m ->
-  export_message es m (cacc cms vs msgs sigs0 L)
-  = cacc (cms ++ msg_cms (xmsg m)) (vs ++ msg_vencs es (xmsg m)) (msgs ++ [dmsg_m es m]) [] (fold_left enums_step (SX m) L).
+  export_message es m (cacx cms vs xs msgs sigs0 L)
+  = cacx (cms ++ msg_cms (xmsg m)) (vs ++ msg_vencs es (xmsg m)) (xs ++ msg_exts m) (msgs ++ [dmsg_m es m]) [] (fold_left enums_step (SX m) L).
 Proof.
-  intros names es m cms vs msgs sigs0 L [Ha [Hc [Hdl [Hsd [Hst [Hid [Hsz [Hms [Hlay _]]]]]]]]].
+  intros names es m cms vs xs msgs sigs0 L [Ha [Hc [Hdl [Hsd [Hst [Hid [Hsz [Hms [Hlay _]]]]]]]]].
   pose proof Hms as [Hids [_ [Htops _]]].
   unfold export_message. rewrite Ha, Hc, Hdl, Hsd, Hst. cbn [Z.eqb app sort_attrs sort_by fold_right fold_left].
   change (filter (fun s => match s_parent s with None => true | Some _ => false end) (m_signals m)) with (filter is_topb (m_signals m)).
   rewrite (sort_by_ascending s_rel) by (eapply layout_top_ascending; eauto).
   rewrite (mux_count es _ Hms).
-  assert (Hacc : set_sigs [] (if String.eqb (m_desc m) EmptyString then cacc cms vs msgs sigs0 L
-                    else add_comment (mkdcomment OMessage (m_desc m) EmptyString (u32 (m_canid m)) EmptyString) (cacc cms vs msgs sigs0 L))
-                 = cacc (cms ++ opt_cm (m_desc m) (mkdcomment OMessage (m_desc m) EmptyString (u32 (m_canid m)) EmptyString)) vs msgs [] L).
+  assert (Hacc : set_sigs [] (if String.eqb (m_desc m) EmptyString then cacx cms vs xs msgs sigs0 L
+                    else add_comment (mkdcomment OMessage (m_desc m) EmptyString (u32 (m_canid m)) EmptyString) (cacx cms vs xs msgs sigs0 L))
+                 = cacx (cms ++ opt_cm (m_desc m) (mkdcomment OMessage (m_desc m) EmptyString (u32 (m_canid m)) EmptyString)) vs xs msgs [] L).
   { unfold opt_cm. destruct (String.eqb (m_desc m) EmptyString); [rewrite app_nil_r|]; reflexivity. }
   rewrite Hacc.
-  unfold msg_cms, msg_vencs, xmsg. cbn [m_desc m_canid m_signals set_m_signals]. unfold SX.
+  unfold msg_cms, msg_vencs, msg_exts, xmsg. cbn [m_desc m_canid m_signals set_m_signals]. unfold SX.
   destruct (m_signals m) as [|s0 r0] eqn:Es.
-  - cbn [filter fold_left length flat_map]. unfold dmsg_m, cacc, add_message. rewrite Es. cbn. rewrite !app_nil_r. reflexivity.
+  - cbn [filter fold_left length flat_map]. unfold dmsg_m, cacx, add_message. rewrite Es. cbn. rewrite !app_nil_r. reflexivity.
   - rewrite <- Es in *. replace (length (m_signals m)) with (S (length r0)) by (rewrite Es; reflexivity).
     rewrite export_tops.
-    + unfold dmsg_m, cacc, add_message. cbn. rewrite <- ?app_assoc. reflexivity.
+    + unfold dmsg_m, cacx, add_message. cbn. rewrite <- ?app_assoc. reflexivity.
     + assumption.
     + intros s Hs. pose proof Hs as Hs'. apply filter_In in Hs'. destruct Hs' as [Hin _]. split; [assumption|]. split.
       * rewrite Forall_forall in Htops. apply Htops. assumption.
       * intros Hm. eapply kids_ok_of; eauto.
 Qed.
 
-Lemma export_messages_m : forall names es l cms vs msgs L,
+Lemma export_messages_m : forall names es l cms vs xs msgs L,
   Forall (mmessage es names) l ->
-  exists L', fold_left (fun a m => export_message es m a) l (cacc cms vs msgs [] L)
-  = cacc (cms ++ flat_map msg_cms (map xmsg l)) (vs ++ flat_map (msg_vencs es) (map xmsg l)) (msgs ++ map (dmsg_m es) l) [] L'.
+  exists L', fold_left (fun a m => export_message es m a) l (cacx cms vs xs msgs [] L)
+  = cacx (cms ++ flat_map msg_cms (map xmsg l)) (vs ++ flat_map (msg_vencs es) (map xmsg l)) (xs ++ flat_map msg_exts l) (msgs ++ map (dmsg_m es) l) [] L'.
 Proof.
-  intros names es l. induction l as [|m r IH]; intros cms vs msgs L H; cbn [fold_left map flat_map].
+  intros names es l. induction l as [|m r IH]; intros cms vs xs msgs L H; cbn [fold_left map flat_map].
   - exists L. rewrite !app_nil_r. reflexivity.
   - inversion H; subst. rewrite (export_message_m names) by assumption.
-    destruct (IH (cms ++ msg_cms (xmsg m)) (vs ++ msg_vencs es (xmsg m)) (msgs ++ [dmsg_m es m]) (fold_left enums_step (SX m) L)) as [L' E]; [assumption|].
+    destruct (IH (cms ++ msg_cms (xmsg m)) (vs ++ msg_vencs es (xmsg m)) (xs ++ msg_exts m) (msgs ++ [dmsg_m es m]) (fold_left enums_step (SX m) L)) as [L' E]; [assumption|].
     exists L'. rewrite E. rewrite <- !app_assoc. reflexivity.
 Qed.
 
 Definition mdoc (b : bus) (L : list Z) : doc :=
   mkdoc (b_name b) (map (fun n => clear (n_name n)) (b_nodes b)) (map (table_of (b_enums b)) L)
-        (map (dmsg_m (b_enums b)) (b_messages b)) (doc_cms (xbus b)) [] [] [] (bus_vencs (xbus b)) [].
+        (map (dmsg_m (b_enums b)) (b_messages b)) (doc_cms (xbus b)) [] [] [] (bus_vencs (xbus b)) (bus_exts b).
 
 Lemma export_m : forall b, mbus b -> exists L, export b = mdoc b L.
 Proof.
   intros b [Ha [Hn [_ [_ [_ [Hm [_ [_ [Hg _]]]]]]]]].
   unfold export. rewrite Ha. cbn [sort_attrs sort_by fold_right fold_left].
-  assert (Hnodes : forall nodes cms0 vs0 msgs0 L0,
+  assert (Hnodes : forall nodes cms0 vs0 xs0 msgs0 L0,
     Forall (fun n => n_attrs n = []) nodes ->
     exists L1,
     fold_left (fun a n =>
@@ -414,32 +673,33 @@ Proof.
         let a := fold_left (fun a x => export_assignment ONode name 0 EmptyString x a) (sort_attrs (n_attrs n)) a in
         fold_left (fun a m => export_message (b_enums b) m a)
                   (filter (fun m => String.eqb (m_sender m) (n_name n)) (b_messages b)) a)
-      nodes (cacc cms0 vs0 msgs0 [] L0)
-    = cacc (cms0 ++ flat_map (node_cms (xbus b)) nodes)
+      nodes (cacx cms0 vs0 xs0 msgs0 [] L0)
+    = cacx (cms0 ++ flat_map (node_cms (xbus b)) nodes)
            (vs0 ++ flat_map (msg_vencs (b_enums b)) (map xmsg (flat_map (fun n => filter (fun m => String.eqb (m_sender m) (n_name n)) (b_messages b)) nodes)))
+           (xs0 ++ flat_map msg_exts (flat_map (fun n => filter (fun m => String.eqb (m_sender m) (n_name n)) (b_messages b)) nodes))
            (msgs0 ++ map (dmsg_m (b_enums b)) (flat_map (fun n => filter (fun m => String.eqb (m_sender m) (n_name n)) (b_messages b)) nodes)) [] L1).
-  { induction nodes as [|n r IH]; intros cms0 vs0 msgs0 L0 Hf; cbn [fold_left flat_map map].
+  { induction nodes as [|n r IH]; intros cms0 vs0 xs0 msgs0 L0 Hf; cbn [fold_left flat_map map].
     - exists L0. rewrite !app_nil_r. reflexivity.
     - inversion Hf as [|? ? Hna Hr]; subst. rewrite Hna.
       cbn [sort_attrs sort_by fold_right fold_left].
-      assert (Hcm : (if String.eqb (n_desc n) EmptyString then cacc cms0 vs0 msgs0 [] L0
-                     else add_comment (mkdcomment ONode (n_desc n) (clear (n_name n)) 0 EmptyString) (cacc cms0 vs0 msgs0 [] L0))
-                    = cacc (cms0 ++ opt_cm (n_desc n) (mkdcomment ONode (n_desc n) (clear (n_name n)) 0 EmptyString)) vs0 msgs0 [] L0).
+      assert (Hcm : (if String.eqb (n_desc n) EmptyString then cacx cms0 vs0 xs0 msgs0 [] L0
+                     else add_comment (mkdcomment ONode (n_desc n) (clear (n_name n)) 0 EmptyString) (cacx cms0 vs0 xs0 msgs0 [] L0))
+                    = cacx (cms0 ++ opt_cm (n_desc n) (mkdcomment ONode (n_desc n) (clear (n_name n)) 0 EmptyString)) vs0 xs0 msgs0 [] L0).
       { unfold opt_cm. destruct (String.eqb (n_desc n) EmptyString); [rewrite app_nil_r; reflexivity|reflexivity]. }
       rewrite Hcm.
       destruct (export_messages_m (map n_name (b_nodes b)) (b_enums b) (filter (fun m => String.eqb (m_sender m) (n_name n)) (b_messages b))
-                  (cms0 ++ opt_cm (n_desc n) (mkdcomment ONode (n_desc n) (clear (n_name n)) 0 EmptyString)) vs0 msgs0 L0) as [L2 E2];
+                  (cms0 ++ opt_cm (n_desc n) (mkdcomment ONode (n_desc n) (clear (n_name n)) 0 EmptyString)) vs0 xs0 msgs0 L0) as [L2 E2];
         [apply Forall_filter; assumption|].
       rewrite E2.
-      match goal with |- exists L1, fold_left ?f r (cacc ?c ?v ?m [] ?l) = _ => destruct (IH c v m l Hr) as [L1 E] end.
+      match goal with |- exists L1, fold_left ?f r (cacx ?c ?v ?x ?m [] ?l) = _ => destruct (IH c v x m l Hr) as [L1 E] end.
       exists L1. refine (eq_trans E _). unfold node_cms, xbus. cbn [b_messages set_b_messages]. rewrite filter_xmsg.
       rewrite !map_app, !flat_map_app, <- !app_assoc. reflexivity. }
   assert (H0 : (if String.eqb (b_desc b) EmptyString then mkeacc [] [] [] [] [] [] [] [] [] []
                 else add_comment (mkdcomment OGeneral (b_desc b) EmptyString 0 EmptyString) (mkeacc [] [] [] [] [] [] [] [] [] []))
-               = cacc (opt_cm (b_desc b) (mkdcomment OGeneral (b_desc b) EmptyString 0 EmptyString)) [] [] [] []).
+               = cacx (opt_cm (b_desc b) (mkdcomment OGeneral (b_desc b) EmptyString 0 EmptyString)) [] [] [] [] []).
   { unfold opt_cm. destruct (String.eqb (b_desc b) EmptyString); reflexivity. }
-  rewrite H0. destruct (Hnodes (b_nodes b) (opt_cm (b_desc b) (mkdcomment OGeneral (b_desc b) EmptyString 0 EmptyString)) [] [] [] Hn) as [L1 E].
-  exists L1. cbv zeta. cbv zeta in E. rewrite E, Hg. cbn. reflexivity.
+  rewrite H0. destruct (Hnodes (b_nodes b) (opt_cm (b_desc b) (mkdcomment OGeneral (b_desc b) EmptyString 0 EmptyString)) [] [] [] [] Hn) as [L1 E].
+  exists L1. cbv zeta. cbv zeta in E. rewrite E, Hg. unfold bus_exts. cbn. reflexivity.
 Qed.
 
 (* ---------------- import: helpers ---------------- *)
@@ -667,6 +927,30 @@ Proof.
     + apply I2; assumption.
 Qed.
 
+Lemma dedup_z_id : forall l seen, NoDup l -> (forall x, In x l -> ~ In x seen) -> dedup_z seen l = l.
+Proof.
+  induction l as [|x r IH]; intros seen Hnd Hs; [reflexivity|]. cbn [dedup_z]. inversion Hnd as [|? ? Hni Hr]; subst.
+  rewrite (not_in_mem_z _ _ (Hs x (or_introl eq_refl))). f_equal. apply IH; [assumption|].
+  intros y Hy [<-|Hin]; [contradiction|apply (Hs y (or_intror Hy) Hin)].
+Qed.
+Lemma ascending_by_id : forall l prev, ascending prev l -> ascending_by (fun x : Z => x) l.
+Proof.
+  induction l as [|x r IH]; intros prev H; [exact I|]. cbn in H. destruct H as [H1 H2]. split; [|eapply IH; eauto].
+  destruct r as [|y q]; [exact I|]. cbn in H2. lia.
+Qed.
+Lemma sort_ascending_Z : forall l prev, ascending prev l -> sort_by Z.ltb l = l.
+Proof. intros l prev H. apply (sort_by_ascending (fun x : Z => x)). eapply ascending_by_id; eauto. Qed.
+Lemma verify_fold_ok : forall es gsize gcount kids size rel gids,
+  (forall g, In g gids -> 0 <= g < gcount /\ verify_insert es gsize (filter (fun k => in_group k g) kids) size rel = Ok tt) ->
+  fold_left (fun acc g => do _ <- acc;
+               if (g <? 0) || (g >=? gcount) then Err "group id out of bounds"%string
+               else verify_insert es gsize (filter (fun k => in_group k g) kids) size rel) gids (Ok tt) = Ok tt.
+Proof.
+  intros es gsize gcount kids size rel gids. induction gids as [|g r IH]; intros H; cbn [fold_left]; [reflexivity|].
+  destruct (H g (or_introl eq_refl)) as [Hb Hv]. cbn [bind]. replace ((g <? 0) || (g >=? gcount)) with false by lia. rewrite Hv.
+  apply IH. intros x Hx. apply H. right. assumption.
+Qed.
+
 Lemma sig_size_std : forall es s, s_kind s = KStandard -> sig_size es s = s_size s.
 Proof. intros es s H. unfold sig_size. rewrite H. reflexivity. Qed.
 Lemma sig_size_enum : forall es s, s_kind s = KEnum -> sig_size es s = enum_size (e_of es s).
@@ -685,7 +969,8 @@ Section MuxImport.
   Let mstart := s_rel mx.
   Hypothesis Henv : forall s, In s sigs -> is_muxb s = false -> env_sig es env st0 msgid s /\ enum_wf (e_of es s).
   Hypothesis Henvx : desc_of key_eqb (msgid, clear (s_name mx)) (ie_sig_desc env) = s_desc mx.
-  Hypothesis Hext : ie_ext_muxes env = [].
+  Hypothesis Hext : forall c, In c sigs -> is_topb c = false ->
+    lookup key_eqb (msgid, clear (s_name c)) (ie_ext_muxes env) = match ext_of msgid mx c with [] => None | e :: _ => Some e end.
   Hypothesis Hrv0 : ProofsEnum.refs_valid st0.
 
   Definition img (s : signal) : dsignal :=
@@ -946,7 +1231,14 @@ Section MuxImport.
 
     Definition rim (p : Z * signal) : signal := rimg (fst p) (snd p) (EI (snd p)).
     Definition timg (p : Z * signal) : signal := place (rim p) (s_rel (snd p)) None [].
-    Definition kimg (p : Z * signal) : signal := place (rim p) (s_rel (snd p)) (Some mid) [grp (snd p)].
+    (* the groups the importer stores: a fixed child comes back fixed when the exported ranges cover the imported
+       group count 2^width, else as the list of all the exported groups *)
+    Definition igrp (c : signal) : list Z :=
+      match s_groups c with
+      | [] => if s_gcount mx =? 2 ^ selw then [] else zrange 0 (Z.to_nat (s_gcount mx))
+      | g => g
+      end.
+    Definition kimg (p : Z * signal) : signal := place (rim p) (s_rel (snd p)) (Some mid) (igrp (snd p)).
 
     Lemma ent_rim : forall p, ent EI p = ((rim p, []), img (snd p)).
     Proof. reflexivity. Qed.
@@ -1019,6 +1311,55 @@ Section MuxImport.
           pose proof (Hall p (or_introl eq_refl)). destruct (cend (snd p) >? a); lia.
     Qed.
 
+    Lemma igrp_spec : forall c, In c sigs -> is_topb c = false ->
+      (igrp c = [] \/ (igrp c <> [] /\ ascending (-1) (igrp c) /\ (forall g, In g (igrp c) -> g < s_gcount mx))) /\
+      (forall g, 0 <= g < s_gcount mx -> in_group (place (rim (0, c)) 0 (Some mid) (igrp c)) g = in_group c g) /\
+      (s_groups c = [] -> mem_of (s_gcount mx) c = zrange 0 (Z.to_nat (s_gcount mx))).
+    Proof.
+      intros c Hc Hct. assert (Hne : c <> mx) by (intros ->; destruct mx_top as [_ H']; congruence).
+      destruct (other_sig c Hc Hne) as [_ [_ [[Ht _]|[_ Hok]]]]; [congruence|].
+      destruct selw_facts as [_ [_ [Hg1 _]]].
+      destruct (mem_of_ascending mx c (child_gok es mx c Hok)) as [Ma Mb]. pose proof (mem_of_nonempty mx c (child_gok es mx c Hok)) as Mn.
+      unfold igrp, mem_of in *. destruct (s_groups c) as [|g0 gr] eqn:Eg.
+      - split; [|split; [|reflexivity]].
+        + destruct (s_gcount mx =? 2 ^ selw); [left; reflexivity|right]. split; [exact Mn|]. split; assumption.
+        + intros g Hg. unfold in_group. cbn [s_groups place]. rewrite Eg.
+          destruct (s_gcount mx =? 2 ^ selw); [reflexivity|].
+          destruct (zrange 0 (Z.to_nat (s_gcount mx))) as [|z0 zr] eqn:Ez; [reflexivity|]. rewrite <- Ez. apply mem_z_in. apply in_zrange. lia.
+      - split; [right; split; [discriminate|split; assumption]|]. split; [|intros Hc0; discriminate Hc0].
+        intros g Hg. unfold in_group. cbn [s_groups place]. rewrite Eg. reflexivity.
+    Qed.
+
+    Lemma child_groups_igrp : forall p, In (snd p) sigs -> is_topb (snd p) = false ->
+      child_groups env msgid (2 ^ selw) (rim p) (img (snd p)) = Ok (igrp (snd p)).
+    Proof.
+      intros p Hs Ht. assert (Hne : snd p <> mx) by (intros Heq; destruct mx_top as [_ H']; rewrite Heq in Ht; congruence).
+      destruct (other_sig _ Hs Hne) as [Hnm [Hk [[Htt _]|[_ Hok]]]]; [congruence|].
+      destruct (img_fields _ Hs Hne) as [F1 [F2 [F3 _]]].
+      destruct selw_facts as [Hsw [Hgc' [Hg1 [_ Hg32]]]].
+      destruct (mem_of_ascending mx (snd p) (child_gok es mx (snd p) Hok)) as [Ma Mb]. pose proof (mem_of_nonempty mx (snd p) (child_gok es mx (snd p) Hok)) as Mn.
+      destruct (grp_head mx (snd p) (child_gok es mx (snd p) Hok)) as [mr Hmr]. pose proof (grp_range mx (snd p) (child_gok es mx (snd p) Hok)) as Hgr.
+      unfold child_groups. rewrite rim_name, (Hext (snd p) Hs Ht). unfold ext_of.
+      destruct (Nat.eqb (length (mem_of (s_gcount mx) (snd p))) 1) eqn:El.
+      - (* a single group: the switch value of the SG_ line *)
+        rewrite F3, Ht. cbn [negb]. apply Nat.eqb_eq in El. rewrite Hmr in El. destruct mr; [|discriminate El].
+        assert (Hsw' : ds_switch (img (snd p)) = grp (snd p)).
+        { unfold img. rewrite Hnm, Ht. unfold child_dsig. destruct (s_kind (snd p)); cbn [ds_switch]; apply u32_id; lia. }
+        rewrite Hsw'. f_equal. unfold igrp. unfold mem_of in Hmr. destruct (s_groups (snd p)) as [|g0 gr] eqn:Eg; [|congruence].
+        exfalso. destruct Hok as [_ [_ [[[_ H2]|[Hx _]] _]]]; [|rewrite Eg in Hx; contradiction].
+        assert (Hl : length (zrange 0 (Z.to_nat (s_gcount mx))) = 1%nat) by (rewrite Hmr; reflexivity).
+        assert (Hzl : forall n f, length (zrange f n) = n) by (induction n; intros f; cbn; [reflexivity|rewrite IHn; reflexivity]).
+        rewrite Hzl in Hl. lia.
+      - cbn [em_ranges]. rewrite mux_ranges_roundtrip; [|assumption|intros x Hx; specialize (Mb x Hx); lia|].
+        2:{ apply Z.pow_le_mono_r; lia. }
+        cbn [bind]. rewrite dedup_z_id by (try (eapply ascending_nodup; exact Ma); intros x _ []).
+        unfold igrp, mem_of in *. destruct (s_groups (snd p)) as [|g0 gr] eqn:Eg.
+        + assert (Hzl : forall n f, length (zrange f n) = n) by (induction n; intros f; cbn; [reflexivity|rewrite IHn; reflexivity]).
+          rewrite Hzl. rewrite Z2Nat.id by lia. reflexivity.
+        + destruct Hok as [_ [_ [[[Hx _]|[_ [_ [_ Hlen]]]] _]]]; [rewrite Eg in Hx; discriminate|]. rewrite Eg in Hlen.
+          replace (Z.of_nat (length (g0 :: gr)) =? 2 ^ selw) with false by lia. reflexivity.
+    Qed.
+
     Lemma mux_kid_step : forall mx0 done p,
       s_id mx0 = mid -> s_gcount mx0 = 2 ^ selw ->
       (forall q, In q (done ++ [p]) -> In (snd q) sigs /\ is_topb (snd q) = false /\ s_rel (snd q) + sig_size es (snd q) <= s_gsize mx0) ->
@@ -1029,17 +1370,28 @@ Section MuxImport.
       destruct (HP p ltac:(apply in_or_app; right; left; reflexivity)) as [Hs [Ht Hfit]].
       assert (Hne : snd p <> mx) by (intros Heq; destruct mx_top as [_ H']; rewrite Heq in Ht; congruence).
       destruct (other_sig _ Hs Hne) as [Hnm [Hk [[Htt _]|[_ Hok]]]]; [congruence|].
-      destruct (img_fields _ Hs Hne) as [F1 [F2 [F3 _]]].
       destruct (child_geo _ Hs Ht) as [G1 [G2 [G3 [G4 G5]]]].
-      destruct Hok as [_ [_ [[g [Hg Hgr]] _]]]. assert (Hgrp : grp (snd p) = g) by (unfold grp; rewrite Hg; reflexivity).
-      destruct selw_facts as [Hsw [Hgc' [_ [_ Hg32]]]].
+      destruct selw_facts as [Hsw [Hgc' [Hg1 [_ Hg32]]]].
       cbn [bind]. rewrite ent_rim. cbn [fst snd]. cbv zeta.
       pose proof (rim_size p Hs Hne) as Hcsz.
-      unfold child_groups. rewrite Hext. cbn [lookup bind]. rewrite F3, Ht. cbn [negb].
-      assert (Hsw' : ds_switch (img (snd p)) = g).
-      { unfold img. rewrite Hnm, Ht. unfold child_dsig. destruct (s_kind (snd p)); cbn [ds_switch]; rewrite Hgrp; apply u32_id; lia. }
-      rewrite Hsw', (start_child _ Hs Ht).
+      rewrite Hgc, (child_groups_igrp p Hs Ht). cbn [bind].
+      rewrite (start_child _ Hs Ht).
       replace (mstart + selw + s_rel (snd p) - mstart - selw) with (s_rel (snd p)) by lia.
+      destruct (igrp_spec (snd p) Hs Ht) as [Hform [Hgrp_p _]].
+      (* any child already inserted that shares group g with this one is disjoint from it *)
+      assert (Hdisj : forall q g, In q done -> 0 <= g -> in_group (snd q) g = true -> in_group (snd p) g = true ->
+                overlaps (s_rel (snd p)) (s_rel (snd p) + sig_size es (snd p)) (s_rel (kimg q)) (s_rel (kimg q) + sig_size es1 (kimg q)) = false).
+      { intros q g Hq Hg0 Hqg Hpg.
+        destruct (HP q ltac:(apply in_or_app; left; assumption)) as [Hqs [Hqt _]].
+        assert (Hqne : snd q <> mx) by (intros Heq; destruct mx_top as [_ H']; rewrite Heq in Hqt; congruence).
+        assert (Hpq : snd p <> snd q).
+        { intros Heq. rewrite map_app in Hnd. cbn [map] in Hnd. apply NoDup_remove_2 in Hnd. apply Hnd. apply in_or_app. left. rewrite Heq. apply in_map. assumption. }
+        destruct Hms as [_ [_ [_ [_ [_ Hdis]]]]].
+        unfold kimg. rewrite ProofsLayout.sig_size_place, (rim_size q Hqs Hqne). cbn [s_rel place]. unfold overlaps.
+        destruct (Hdis (snd p) (snd q) Hs Hqs Ht Hqt Hpq (ex_intro _ g (conj Hg0 (conj Hpg Hqg)))) as [Hd|Hd]; lia. }
+      assert (Hkq : forall q g, In q done -> 0 <= g < s_gcount mx -> in_group (kimg q) g = in_group (snd q) g).
+      { intros q g Hq Hg. destruct (HP q ltac:(apply in_or_app; left; assumption)) as [Hqs [Hqt _]].
+        destruct (igrp_spec (snd q) Hqs Hqt) as [_ [Hq2 _]]. rewrite <- (Hq2 g Hg). reflexivity. }
       unfold mux_insert.
       rewrite not_in_mem_str.
       2:{ rewrite rim_name. rewrite map_map. intros Hin. apply in_map_iff in Hin. destruct Hin as [q [Hq Hqin]].
@@ -1047,28 +1399,37 @@ Section MuxImport.
           destruct (HP q ltac:(apply in_or_app; left; assumption)) as [Hqs [Hqt _]].
           destruct Hms as [_ [Hnm' _]]. assert (snd q = snd p) by (apply (NoDup_map_inj (fun s => clear (s_name s)) sigs); assumption).
           rewrite map_app in Hnd. cbn [map] in Hnd. apply NoDup_remove_2 in Hnd. apply Hnd. apply in_or_app. left. rewrite <- H. apply in_map. assumption. }
-      cbn [dedup_z mem_z existsb fold_left bind]. rewrite Hgc.
-      replace ((g <? 0) || (g >=? 2 ^ selw)) with false by lia.
-      unfold verify_insert. fold es1. rewrite Hcsz.
-      replace (s_rel (snd p) <? 0) with false by lia. replace (sig_size es (snd p) >? s_gsize mx0) with false by lia.
-      replace (s_rel (snd p) + sig_size es (snd p) >? s_gsize mx0) with false by lia.
-      replace (existsb _ (filter _ (map kimg done))) with false.
-      2:{ symmetry. destruct (existsb _ (filter _ (map kimg done))) eqn:E; [|reflexivity]. exfalso.
-          apply existsb_exists in E. destruct E as [d [Hd Ho]]. apply filter_In in Hd. destruct Hd as [Hd Hig].
-          apply in_map_iff in Hd. destruct Hd as [q [<- Hqin]].
+      fold es1. rewrite Hcsz.
+      assert (Hver : forall kids', (forall d, In d kids' -> overlaps (s_rel (snd p)) (s_rel (snd p) + sig_size es (snd p)) (s_rel d) (s_rel d + sig_size es1 d) = false) ->
+                verify_insert es1 (s_gsize mx0) kids' (sig_size es (snd p)) (s_rel (snd p)) = Ok tt).
+      { intros kids' Hk'. unfold verify_insert.
+        replace (s_rel (snd p) <? 0) with false by lia. replace (sig_size es (snd p) >? s_gsize mx0) with false by lia.
+        replace (s_rel (snd p) + sig_size es (snd p) >? s_gsize mx0) with false by lia.
+        replace (existsb _ kids') with false; [reflexivity|].
+        symmetry. destruct (existsb _ kids') eqn:E; [|reflexivity]. exfalso.
+        apply existsb_exists in E. destruct E as [d [Hd Ho]]. rewrite (Hk' d Hd) in Ho. discriminate. }
+      assert (Hfin : map kimg done ++ [place (rim p) (s_rel (snd p)) (Some (s_id mx0)) (igrp (snd p))] = map kimg (done ++ [p])).
+      { rewrite map_app. cbn [map]. unfold kimg. rewrite Hid. reflexivity. }
+      destruct Hform as [Hn0|[Hn0 [Ha Hb]]].
+      - (* fixed: against every child *)
+        rewrite Hn0 in *. rewrite Hver.
+        + cbn [bind]. rewrite Hfin, app_nil_r. reflexivity.
+        + intros d Hd. apply in_map_iff in Hd. destruct Hd as [q [<- Hq]].
           destruct (HP q ltac:(apply in_or_app; left; assumption)) as [Hqs [Hqt _]].
           assert (Hqne : snd q <> mx) by (intros Heq; destruct mx_top as [_ H']; rewrite Heq in Hqt; congruence).
-          assert (Hpq : snd p <> snd q).
-          { intros Heq. rewrite map_app in Hnd. cbn [map] in Hnd. apply NoDup_remove_2 in Hnd. apply Hnd. apply in_or_app. left. rewrite Heq. apply in_map. assumption. }
-          unfold in_group in Hig. cbn [s_groups kimg place] in Hig. unfold mem_z in Hig. cbn [existsb] in Hig. rewrite orb_false_r in Hig.
-          apply Z.eqb_eq in Hig.
-          destruct Hms as [_ [_ [_ [_ [_ Hdis]]]]].
-          unfold overlaps in Ho. unfold kimg in Ho. rewrite ProofsLayout.sig_size_place, (rim_size q Hqs Hqne) in Ho. cbn [s_rel place] in Ho.
-          destruct (Hdis (snd p) (snd q) Hs Hqs Ht Hqt Hpq ltac:(rewrite Hgrp; exact Hig)) as [Hd|Hd]; lia. }
-      cbn [bind sort_by fold_right insert_sorted].
-      replace (map kimg done ++ [place (rim p) (s_rel (snd p)) (Some (s_id mx0)) [g]]) with (map kimg (done ++ [p])).
-      2:{ rewrite map_app. cbn [map]. f_equal. f_equal. unfold kimg. rewrite Hid, Hgrp. reflexivity. }
-      rewrite app_nil_r. reflexivity.
+          destruct (other_sig _ Hqs Hqne) as [_ [_ [[Hqtt _]|[_ Hqok]]]]; [congruence|].
+          pose proof (grp_range mx (snd q) (child_gok es mx (snd q) Hqok)) as Hgq.
+          apply (Hdisj q (grp (snd q)) Hq ltac:(lia) (in_group_grp_true mx (snd q) (child_gok es mx (snd q) Hqok) Hg1)).
+          rewrite <- (Hgrp_p (grp (snd q)) Hgq). reflexivity.
+      - remember (igrp (snd p)) as gl eqn:Egl. destruct gl as [|g0 gr]; [contradiction|].
+        rewrite dedup_z_id by (try (eapply ascending_nodup; exact Ha); intros x _ []).
+        rewrite verify_fold_ok.
+        + cbn [bind]. rewrite (sort_ascending_Z _ _ Ha). rewrite Hfin, app_nil_r. reflexivity.
+        + intros g Hg. pose proof (ascending_lb _ _ _ Ha Hg) as Hlb. specialize (Hb g Hg). split; [lia|].
+          apply Hver. intros d Hd. apply filter_In in Hd. destruct Hd as [Hd Hdg]. apply in_map_iff in Hd. destruct Hd as [q [<- Hq]].
+          rewrite (Hkq q g Hq ltac:(lia)) in Hdg.
+          apply (Hdisj q g Hq ltac:(lia) Hdg).
+          rewrite <- (Hgrp_p g ltac:(lia)). unfold in_group. cbn [s_groups place]. apply mem_z_in. assumption.
     Qed.
 
     Lemma mux_kids : forall mx0 l done,
@@ -1301,8 +1662,7 @@ Section MuxImport.
   Qed.
 
   (* ---- what the exporter wrote is the image of a permutation of the signals ---- *)
-  Definition walk_kids : list signal :=
-    flat_map (fun id => filter (fun c => in_group c id) (children sigs mx)) (zrange 0 (Z.to_nat (s_gcount mx))).
+  Definition walk_kids : list signal := walk_of sigs mx.
   Definition S0 : list signal := flat_map (fun t => t :: (if is_muxb t then walk_kids else [])) (filter is_topb sigs).
 
   Lemma kids_children : kids_ok es sigs mx.
@@ -1325,12 +1685,12 @@ Section MuxImport.
       - assert (t = mx) by (destruct Hms as [_ [_ [_ [Hu _]]]]; apply Hu; assumption). subst t.
         unfold is_muxb in Em. destruct (s_kind mx) eqn:Ek; try discriminate.
         f_equal; [unfold img; rewrite Hmxm; reflexivity|].
-        unfold wsigs, walk_kids. rewrite map_flat_map. apply flat_map_ext_in_simple. intros id _.
+        unfold wsigs, walk_kids, walk_of. rewrite map_flat_map. apply flat_map_ext_in_simple. intros id _.
         apply map_ext_in. intros c Hc. apply filter_In in Hc. destruct Hc as [Hc Hg].
         destruct (child_in_sigs c Hc) as [Hcs [Hct Hok]].
         assert (Hcne : c <> mx) by (intros ->; destruct mx_top as [_ H']; congruence).
         destruct (other_sig c Hcs Hcne) as [Hnm _]. unfold img. rewrite Hnm, Hct.
-        rewrite (in_group_grp es mx c id Hok) in Hg. apply Z.eqb_eq in Hg. rewrite Hg. reflexivity.
+        apply Z.eqb_eq in Hg. rewrite Hg. reflexivity.
       - unfold img. rewrite Em, Htt. unfold is_muxb in Em. destruct (s_kind t); try discriminate; reflexivity. }
     apply G. intros t Ht. apply filter_In in Ht. exact Ht.
   Qed.
@@ -1351,13 +1711,10 @@ Section MuxImport.
       - intros y Hy Hne. destruct (is_muxb y) eqn:E; [|reflexivity]. exfalso. apply Hne. apply filter_In in Hy. apply Hu; tauto. }
     (* walk_kids ~ the children *)
     assert (P2 : Permutation walk_kids (filter (fun s => negb (is_topb s)) sigs)).
-    { unfold walk_kids.
-      assert (Hfe : forall id, filter (fun c => in_group c id) (children sigs mx) = filter (fun c => id =? grp c) (children sigs mx)).
-      { intros id. apply filter_ext_in. intros c Hc. destruct (child_in_sigs c Hc) as [_ [_ Hok]]. apply (in_group_grp es mx c id Hok). }
-      rewrite (flat_map_ext_in_simple _ (fun id => filter (fun c => id =? grp c) (children sigs mx))) by (intros id _; apply Hfe).
+    { unfold walk_kids, walk_of.
       eapply Permutation_trans; [apply walk_perm|].
       rewrite filter_all.
-      2:{ intros c Hc. destruct (child_in_sigs c Hc) as [_ [_ [_ [_ [[g [Hg Hgr]] _]]]]]. unfold grp. rewrite Hg.
+      2:{ intros c Hc. destruct (child_in_sigs c Hc) as [_ [_ Hok]]. pose proof (grp_range mx c (child_gok es mx c Hok)) as Hg.
           destruct selw_facts as [_ [_ [Hg1 _]]]. rewrite Z2Nat.id by lia. lia. }
       unfold children. eapply Permutation_trans; [apply Permutation_sym, sort_by_perm|].
       erewrite filter_ext_in; [apply Permutation_refl|]. intros c Hc. cbn beta. unfold is_topb.
@@ -1374,7 +1731,7 @@ End MuxImport.
 (* ---------------- a message with a multiplexer, as a whole ---------------- *)
 Definition mux_result (mx : signal) (mid gs : Z) (EI : signal -> Z) (S' : list signal) : list signal :=
   let X := index_from 0 S' in
-  map (timg EI) (filter plainp X) ++ [mx_img mx mid gs] ++ map (kimg mid EI) (filter childp X).
+  map (timg EI) (filter plainp X) ++ [mx_img mx mid gs] ++ map (kimg mx mid EI) (filter childp X).
 
 Lemma img_common : forall es m mx s,
   ds_order (img es m mx s) = m_order m /\ ds_receivers (img es m mx s) = recs_out m.
@@ -1388,7 +1745,9 @@ Lemma import_message_mux : forall es env st0 names nodes st done m mx,
   mmessage es names m -> In mx (m_signals m) -> is_muxb mx = true ->
   (forall s, In s (m_signals m) -> is_muxb s = false -> env_sig es env st0 (u32 (m_canid m)) s /\ enum_wf (e_of es s)) ->
   desc_of key_eqb (u32 (m_canid m), clear (s_name mx)) (ie_sig_desc env) = s_desc mx ->
-  ie_ext_muxes env = [] -> ProofsEnum.refs_valid st0 -> Inv st -> ProofsEnum.st_le st0 st ->
+  (forall c, In c (m_signals m) -> is_topb c = false ->
+     lookup key_eqb (u32 (m_canid m), clear (s_name c)) (ie_ext_muxes env) = match ext_of (u32 (m_canid m)) mx c with [] => None | e :: _ => Some e end) ->
+  ProofsEnum.refs_valid st0 -> Inv st -> ProofsEnum.st_le st0 st ->
   desc_of Z.eqb (u32 (m_canid m)) (ie_msg_desc env) = m_desc m ->
   (forall r, In r names -> In (clear r) (map n_name nodes)) ->
   (forall r, In r names -> clear r <> dummy_node) ->
@@ -1487,7 +1846,7 @@ Section MuxProj.
 
   Definition Fimg (p : Z * signal) : signal :=
     if is_muxb (snd p) then mx_img mx (fst p) gs
-    else if is_topb (snd p) then timg EI p else kimg mid EI p.
+    else if is_topb (snd p) then timg EI p else kimg mx mid EI p.
   Definition Y : list (Z * signal) := filter plainp X ++ [(mid, mx)] ++ filter childp X.
 
   Lemma HndS : NoDup S'.
@@ -1635,16 +1994,21 @@ Section MuxProj.
         * destruct (Q3 eq_refl) as [A1 [A2 [A3 [A4 [A5 A6]]]]]. rewrite A1, A2, A3, A4, A5, A6. reflexivity.
         * rewrite (Q4 eq_refl). reflexivity.
       + (* a multiplexed signal *)
-        destruct Hok as [_ [Hpar [[g [Hg Hgr]] [Hv0 [Ht0 [Ha0 _]]]]]].
-        assert (Hgrp : grp (snd p) = g) by (unfold grp; rewrite Hg; reflexivity).
+        destruct Hok as [_ [Hpar [Hgok [Hv0 [Ht0 [Ha0 _]]]]]].
+        assert (Hmem : membership R (kimg mx mid EI p) = membership sigs (snd p)).
+        { unfold membership, kimg. cbn [s_parent s_groups place]. rewrite Hpar, find_mx, (ProofsIds.find_sig_unique sigs mx Hids Hmx).
+          unfold igrp. destruct (s_groups (snd p)) as [|g0 gr] eqn:Eg; [|reflexivity].
+          destruct (s_gcount mx =? 2 ^ sel_width mx) eqn:E2.
+          - cbn [s_gcount mx_img]. apply Z.eqb_eq in E2. rewrite E2. reflexivity.
+          - destruct Hgok as [[_ H2]|[Hx _]]; [|exfalso; apply Hx; reflexivity].
+            destruct (Z.to_nat (s_gcount mx)) eqn:En; [lia|]. cbn [zrange]. reflexivity. }
         destruct R_len as [k HRl]. destruct sigs_len as [k2 HSl].
-        unfold proj_signal. rewrite HRl, HSl. cbn [abs_start].
+        unfold proj_signal. rewrite Hmem, HRl, HSl. cbn [abs_start].
         unfold kimg. rewrite ProofsLayout.sig_size_place.
         cbn [s_kind s_name s_rel s_parent s_groups s_signed s_scale s_offset s_min s_max s_unit s_enum s_desc s_startval s_sendtype s_attrs place].
         rewrite find_mx. rewrite Hpar.
         rewrite (ProofsIds.find_sig_unique sigs mx Hids Hmx).
         rewrite !abs_start_top by (try reflexivity; apply (proj1 (mx_top es m mx names Hmm Hmx Hmxm))).
-        unfold membership. cbn [s_parent s_groups place]. rewrite Hpar, Hg, Hgrp.
         fold (rim EI p). unfold rim. rewrite Q1, Q2, F2, F3, F4, F5, F6, Hv0, Ht0, Ha0, selw_img, clear_spaces_idem.
         cbn [s_name s_rel mx_img]. rewrite clear_spaces_idem.
         destruct (s_kind (snd p)) eqn:Ek; try (exfalso; apply Hk; reflexivity).
@@ -1767,8 +2131,14 @@ Proof.
   intros es st id s s' H. unfold Rsig in H. destruct (s_kind s); [subst; cbn; auto| |]; destruct H as [ei [-> _]]; cbn; auto.
 Qed.
 
+(* the SG_MUL_VAL_ table of the import answers for the children of a message's multiplexer *)
+Definition ext_ok (env : ienv) (m : message) : Prop :=
+  forall mx c, In mx (m_signals m) -> is_muxb mx = true -> In c (m_signals m) -> is_topb c = false ->
+    lookup key_eqb (u32 (m_canid m), clear (s_name c)) (ie_ext_muxes env)
+    = match ext_of (u32 (m_canid m)) mx c with [] => None | e :: _ => Some e end.
+
 Lemma import_message_m : forall es env st0 names nodes st done m,
-  mmessage es names m -> env_msg es env st0 m -> ie_ext_muxes env = [] ->
+  mmessage es names m -> env_msg es env st0 m -> ext_ok env m ->
   ProofsEnum.refs_valid st0 -> Inv st -> ProofsEnum.st_le st0 st ->
   (forall r, In r names -> In (clear r) (map n_name nodes)) ->
   (forall r, In r names -> clear r <> dummy_node) ->
@@ -1789,7 +2159,7 @@ Proof.
       by (intros s Hs _; apply Hsig; assumption).
     assert (Henvx : desc_of key_eqb (u32 (m_canid m), clear (s_name mx)) (ie_sig_desc env) = s_desc mx)
       by (destruct (Hsig mx Hmx) as [[Hd _] _]; exact Hd).
-    destruct (import_message_mux es env st0 names nodes st done m mx Hmm Hmx Hmxm Henv1 Henvx Hext Hrv0 HI Hle Hmd Hnodes Hnd Hcan Hpair)
+    destruct (import_message_mux es env st0 names nodes st done m mx Hmm Hmx Hmxm Henv1 Henvx (fun c Hc Hct => Hext mx c Hmx Hmxm Hc Hct) Hrv0 HI Hle Hmd Hnodes Hnd Hcan Hpair)
       as [st' [S' [mid [gs [EI [E [Hp [Hmid [Hgs [HI' [Hle' [HEI [Hsm1 Hsm2]]]]]]]]]]]]].
     exists st'. eexists. split; [exact E|].
     split; [exact HI'|]. split; [exact Hle'|]. split; [|split].
@@ -1823,7 +2193,7 @@ Fixpoint SMs (sm : list (key * (nat * Z))) (p : nat) (l l' : list message) : Pro
   end.
 
 Lemma import_messages_m : forall es env st0 names nodes l st done,
-  Forall (mmessage es names) l -> (forall m, In m l -> env_msg es env st0 m) -> ie_ext_muxes env = [] ->
+  Forall (mmessage es names) l -> (forall m, In m l -> env_msg es env st0 m) -> (forall m, In m l -> ext_ok env m) ->
   ProofsEnum.refs_valid st0 -> Inv st -> ProofsEnum.st_le st0 st ->
   (forall r, In r names -> In (clear r) (map n_name nodes)) ->
   (forall r, In r names -> clear r <> dummy_node) ->
@@ -1839,7 +2209,7 @@ Proof.
   intros es env st0 names nodes l. induction l as [|m r IH]; intros st done Hp Henv Hext Hrv0 HI Hle Hn Hd Hc Hq.
   - cbn. exists st, []. rewrite app_nil_r. split; [reflexivity|]. split; [assumption|]. split; [apply ProofsEnum.st_le_refl|]. split; [constructor|]. split; [exact I|auto].
   - inversion Hp as [|? ? Hpm Hpr]; subst. cbn [map fold_left bind].
-    destruct (import_message_m es env st0 names nodes st done m Hpm (Henv m (or_introl eq_refl)) Hext Hrv0 HI Hle Hn Hd)
+    destruct (import_message_m es env st0 names nodes st done m Hpm (Henv m (or_introl eq_refl)) (Hext m (or_introl eq_refl)) Hrv0 HI Hle Hn Hd)
       as [st1 [m' [E1 [HI1 [Hle1 [HR [HS1 HS2]]]]]]].
     + cbn [map] in Hc. apply NoDup_remove_2 in Hc. intros Hin. apply Hc. apply in_or_app. left. assumption.
     + cbn [map] in Hq. apply NoDup_remove_2 in Hq. intros Hin. apply Hq. apply in_or_app. left. assumption.
@@ -1851,6 +2221,7 @@ Proof.
         cbn [map] in Hc. apply NoDup_app_r in Hc. inversion Hc as [|? ? Hni _]; subst. apply Hni. rewrite Hq1. apply in_map. assumption. }
       destruct (IH st1 (done ++ [m'])) as [st' [msgs' [F1 [F2 [F3 [F4 [F5 F6]]]]]]]; try assumption.
       * intros x Hx. apply Henv. right. assumption.
+      * intros x Hx. apply Hext. right. assumption.
       * eapply ProofsEnum.st_le_trans; [exact Hrv0|exact Hle|exact Hle1].
       * rewrite map_app. cbn [map]. rewrite K1, <- app_assoc. exact Hc.
       * rewrite map_app. cbn [map]. rewrite K2, K3, <- app_assoc. exact Hq.
@@ -1926,12 +2297,106 @@ Proof.
     eapply Permutation_NoDup; [apply Permutation_map; apply (SX_perm _ _ m (Hms m Hm))|exact Hn].
 Qed.
 
+(* ---------------- the SG_MUL_VAL_ table of an exported bus ---------------- *)
+Lemma lookup_key_unique : forall {V} (l : list (key * V)) k v,
+  In (k, v) l -> (forall v', In (k, v') l -> v' = v) -> lookup key_eqb k l = Some v.
+Proof.
+  intros V l. induction l as [|[k0 v0] r IH]; intros k v Hin Hu; [destruct Hin|]. cbn [lookup].
+  destruct (key_eqb k k0) eqn:E.
+  - apply key_eqb_eq in E. subst k0. f_equal. apply Hu. left. reflexivity.
+  - destruct Hin as [Hin|Hin]; [inversion Hin; subst; rewrite (proj2 (key_eqb_eq k k) eq_refl) in E; discriminate|].
+    apply IH; [assumption|]. intros v' Hv'. apply Hu. right. assumption.
+Qed.
+Lemma lookup_key_absent : forall {V} (l : list (key * V)) k, (forall v, ~ In (k, v) l) -> lookup key_eqb k l = None.
+Proof.
+  intros V l. induction l as [|[k0 v0] r IH]; intros k H; [reflexivity|]. cbn [lookup].
+  destruct (key_eqb k k0) eqn:E.
+  - apply key_eqb_eq in E. subst k0. exfalso. apply (H v0). left. reflexivity.
+  - apply IH. intros v Hv. apply (H v). right. assumption.
+Qed.
+Lemma in_import_ext_muxes : forall l k em, In (k, em) (import_ext_muxes l) <-> In em l /\ k = (em_msg em, em_muxed em).
+Proof.
+  intros l k em. unfold import_ext_muxes.
+  assert (G : forall l acc, In (k, em) (fold_left (fun acc em0 => ((em_msg em0, em_muxed em0), em0) :: acc) l acc)
+                            <-> (In em l /\ k = (em_msg em, em_muxed em)) \/ In (k, em) acc).
+  { induction l0 as [|e r IH]; intros acc; cbn [fold_left].
+    - split; [intros H; right; assumption|intros [[[] _]|H]; assumption].
+    - rewrite IH. cbn [In]. split.
+      + intros [[H1 H2]|[H|H]]; [left; split; [right; assumption|assumption]| |right; assumption].
+        inversion H; subst. left. split; [left; reflexivity|reflexivity].
+      + intros [[[->|H1] H2]|H]; [right; left; rewrite H2; reflexivity|left; auto|right; right; assumption]. }
+  rewrite G. split; [intros [H|[]]; assumption|intros H; left; assumption].
+Qed.
+
+Lemma in_walk_of : forall es sigs mx c, kids_ok es sigs mx -> 1 <= s_gcount mx -> (In c (walk_of sigs mx) <-> In c (children sigs mx)).
+Proof.
+  intros es sigs mx c [HK _] Hg. unfold walk_of. rewrite in_flat_map. split.
+  - intros [id [_ Hc]]. apply filter_In in Hc. tauto.
+  - intros Hc. exists (grp c). rewrite Forall_forall in HK. pose proof (grp_range mx c (child_gok es mx c (HK c Hc))) as Hr. split.
+    + apply in_zrange. lia.
+    + apply filter_In. split; [assumption|apply Z.eqb_refl].
+Qed.
+
+Lemma ext_ok_bus : forall b nd md sd se, mbus b -> forall m, In m (b_messages b) -> ext_ok (mkienv nd md sd se (import_ext_muxes (bus_exts b))) m.
+Proof.
+  intros b nd md sd se Hb m Hm mx c Hmx Hmxm Hc Hct. cbn [ie_ext_muxes].
+  pose proof (mbus_keyed b Hb) as [_ [_ [Hcan Hk4]]]. pose proof Hb as [_ [_ [_ [_ [_ [Hms _]]]]]]. rewrite Forall_forall in Hms.
+  (* every entry of the table comes from a child of a multiplexer of a message *)
+  assert (Hsrc : forall k em, In (k, em) (import_ext_muxes (bus_exts b)) ->
+            exists m' mx' c', In m' (b_messages b) /\ In mx' (m_signals m') /\ is_muxb mx' = true /\ In c' (m_signals m') /\ is_topb c' = false /\
+                              In em (ext_of (u32 (m_canid m')) mx' c') /\ k = (u32 (m_canid m'), clear (s_name c'))).
+  { intros k em Hin. apply in_import_ext_muxes in Hin. destruct Hin as [Hin ->]. unfold bus_exts in Hin. apply in_flat_map in Hin.
+    destruct Hin as [m' [Hm' Hin]]. unfold msg_exts in Hin. apply in_flat_map in Hin. destruct Hin as [t [Ht Hin]].
+    apply filter_In in Ht. destruct Ht as [Ht Htt]. unfold texts in Hin. destruct (is_muxb t) eqn:Em; [|destruct Hin].
+    apply in_flat_map in Hin. destruct Hin as [c' [Hc' Hin]].
+    pose proof (Hms m' Hm') as Hmm'. pose proof Hmm' as [_ [_ [_ [_ [_ [_ [_ [Hmso _]]]]]]]].
+    pose proof (kids_ok_of _ _ t Hmso Ht Em) as Hko.
+    assert (Hg1 : 1 <= s_gcount t).
+    { destruct Hmso as [_ [_ [Htops _]]]. rewrite Forall_forall in Htops. destruct (Htops t (proj2 (filter_In _ _ _) (conj Ht Htt))) as [_ [_ [_ [_ [_ [_ Hk]]]]]].
+      unfold is_muxb in Em. destruct (s_kind t); try discriminate. lia. }
+    apply (in_walk_of _ _ _ _ Hko Hg1) in Hc'. unfold children in Hc'. apply Proofs.In_sort_by in Hc'. apply filter_In in Hc'. destruct Hc' as [Hc' Hp].
+    exists m', t, c'. split; [assumption|]. split; [assumption|]. split; [assumption|]. split; [assumption|].
+    split; [unfold is_topb; destruct (s_parent c'); [reflexivity|discriminate]|]. split; [assumption|].
+    unfold ext_of in Hin. destruct (Nat.eqb _ 1); [destruct Hin|]. destruct Hin as [<-|[]]. reflexivity. }
+  (* the keys determine message, multiplexer and child *)
+  assert (Hkey : forall m' mx' c', In m' (b_messages b) -> In mx' (m_signals m') -> is_muxb mx' = true -> In c' (m_signals m') ->
+            (u32 (m_canid m'), clear (s_name c')) = (u32 (m_canid m), clear (s_name c)) -> m' = m /\ mx' = mx /\ c' = c).
+  { intros m' mx' c' Hm' Hmx' Hmxm' Hc' Heq. inversion Heq as [[E1 E2]].
+    destruct (Hk4 m Hm) as [Hid Hn]. destruct (Hk4 m' Hm') as [Hid' _]. rewrite !u32_id in E1 by assumption.
+    assert (m' = m) by (apply (NoDup_map_inj m_canid (b_messages b)); assumption). subst m'.
+    destruct (Hms m Hm) as [_ [_ [_ [_ [_ [_ [_ [[_ [_ [_ [Hu _]]]] _]]]]]]]].
+    split; [reflexivity|]. split; [apply Hu; assumption|]. apply (NoDup_map_inj (fun s => clear (s_name s)) (m_signals m)); assumption. }
+  pose proof (Hms m Hm) as Hmm. pose proof Hmm as [_ [_ [_ [_ [_ [_ [_ [Hmso _]]]]]]]].
+  destruct (ext_of (u32 (m_canid m)) mx c) as [|e er] eqn:Ee.
+  - apply lookup_key_absent. intros em Hin. destruct (Hsrc _ _ Hin) as [m' [mx' [c' [H1 [H2 [H3 [H4 [_ [H6 H7]]]]]]]]].
+    destruct (Hkey m' mx' c' H1 H2 H3 H4 (eq_sym H7)) as [-> [-> ->]]. rewrite Ee in H6. destruct H6.
+  - assert (Her : er = []) by (unfold ext_of in Ee; destruct (Nat.eqb _ 1); [discriminate|inversion Ee; reflexivity]). subst er.
+    apply lookup_key_unique.
+    + apply in_import_ext_muxes. split.
+      * unfold bus_exts. apply in_flat_map. exists m. split; [assumption|]. unfold msg_exts. apply in_flat_map. exists mx. split.
+        -- apply filter_In. split; [assumption|]. destruct (is_topb mx) eqn:Et; [reflexivity|]. exfalso.
+           destruct Hmso as [_ [_ [_ [_ [Hch _]]]]]. destruct (Hch mx Hmx Et) as [q [_ [_ [_ [Hk _]]]]]. unfold is_muxb in Hmxm. destruct (s_kind mx); try discriminate. apply Hk. reflexivity.
+        -- unfold texts. rewrite Hmxm. apply in_flat_map. exists c. split; [|rewrite Ee; left; reflexivity].
+           pose proof (kids_ok_of _ _ mx Hmso Hmx Hmxm) as Hko.
+           assert (Hg1 : 1 <= s_gcount mx).
+           { pose proof Hmso as [_ [_ [Htops [_ [Hch _]]]]]. rewrite Forall_forall in Htops.
+             assert (Hmt : is_topb mx = true).
+             { destruct (is_topb mx) eqn:Et; [reflexivity|]. exfalso. destruct (Hch mx Hmx Et) as [q [_ [_ [_ [Hk _]]]]]. unfold is_muxb in Hmxm. destruct (s_kind mx); try discriminate. apply Hk. reflexivity. }
+             destruct (Htops mx (proj2 (filter_In _ _ _) (conj Hmx Hmt))) as [_ [_ [_ [_ [_ [_ Hk]]]]]].
+             unfold is_muxb in Hmxm. destruct (s_kind mx); try discriminate. lia. }
+           apply (in_walk_of _ _ _ _ Hko Hg1). unfold children. apply Proofs.In_sort_by. apply filter_In. split; [assumption|].
+           destruct Hmso as [_ [_ [_ [Hu [Hch _]]]]]. destruct (Hch c Hc Hct) as [q [Hq [_ [Hqm [_ [Hp _]]]]]]. rewrite (Hu mx q Hmx Hq Hmxm Hqm). rewrite Hp. apply Z.eqb_refl.
+      * unfold ext_of in Ee. destruct (Nat.eqb _ 1); [discriminate|]. inversion Ee. reflexivity.
+    + intros em Hin. destruct (Hsrc _ _ Hin) as [m' [mx' [c' [H1 [H2 [H3 [H4 [_ [H6 H7]]]]]]]]].
+      destruct (Hkey m' mx' c' H1 H2 H3 H4 (eq_sym H7)) as [-> [-> ->]]. rewrite Ee in H6. destruct H6 as [<-|[]]. reflexivity.
+Qed.
+
 (* ---------------- the structural part of the import for any document that carries the exported structure
    of an mbus (used by RoundTripAll with non-empty attribute sections) ---------------- *)
 Lemma import_struct_m : forall b L d, mbus b ->
   d_filename d = b_name b -> d_nodes d = map (fun n => clear (n_name n)) (b_nodes b) ->
   d_valtables d = map (table_of (b_enums b)) L -> d_messages d = map (dmsg_m (b_enums b)) (b_messages b) ->
-  d_comments d = doc_cms (xbus b) -> d_valencs d = bus_vencs (xbus b) -> d_extmuxes d = [] ->
+  d_comments d = doc_cms (xbus b) -> d_valencs d = bus_vencs (xbus b) -> d_extmuxes d = bus_exts b ->
   exists st' msgs',
     import d = (do b1 <- import_attributes (is_sigmap st') d
                            (mkbus (b_name b) (b_desc b) []
@@ -1948,7 +2413,7 @@ Proof.
   destruct (valencs_ok (length reg) (bus_vencs (xbus b)) reg []) as [new [se' [V1 V2]]].
   { apply Forall_forall. intros ve Hin. apply in_bus_vencs in Hin. destruct Hin as [m [s [_ [_ [_ ->]]]]].
     cbn [ve_values]. apply evals_ok. apply enum_wf_nth. assumption. }
-  rewrite V1. cbn [bind fst snd import_ext_muxes fold_left].
+  rewrite V1. cbn [bind fst snd].
   change (b_desc (xbus b)) with (b_desc b).
   rewrite import_nodes_ok; [|assumption|assumption|assumption|intros n Hin; apply (node_desc_ok (xbus b) Hkx); assumption].
   cbn [bind].
@@ -1963,15 +2428,16 @@ Proof.
       rewrite Forall_forall in HF. apply HF. unfold nth_enum. apply nth_In. lia. }
     split; [intros r []|]. split; intros i Hi; cbn [is_enums st0] in *; [apply (Hall i Hi)|intros _; apply (Hall i Hi)]. }
   assert (Hwf : forall x, enum_wf (e_of (b_enums b) x)) by (intros x; apply enum_wf_nth; assumption).
-  assert (Henvm : forall m, In m (b_messages b) -> env_msg (b_enums b) (mkienv nd md sd se' []) st0 m).
+  assert (Henvm : forall m, In m (b_messages b) -> env_msg (b_enums b) (mkienv nd md sd se' (import_ext_muxes (bus_exts b))) st0 m).
   { intros m Hin. assert (Hxin : In (xmsg m) (b_messages (xbus b))) by (apply in_map; assumption). split.
     - cbn [ie_msg_desc]. apply (msg_desc_ok (xbus b) Hkx (xmsg m) Hxin).
     - intros s Hs. split; [|apply Hwf].
       assert (Hsx : In s (m_signals (xmsg m))).
       { cbn [m_signals xmsg set_m_signals]. rewrite Forall_forall in Hm. eapply Permutation_in; [apply (SX_perm _ _ m (Hm m Hin))|exact Hs]. }
-      apply (env_sig_m (xbus b) (length reg) reg (reg ++ new) se' md nd Hkx Hes V1 (xmsg m) s Hxin Hsx). }
-  destruct (import_messages_m (b_enums b) (mkienv nd md sd se' []) st0 (map n_name (b_nodes b)) nodes' (b_messages b) st0 [])
+      pose proof (env_sig_m (xbus b) (length reg) reg (reg ++ new) se' md nd Hkx Hes V1 (xmsg m) s Hxin Hsx) as He. exact He. }
+  destruct (import_messages_m (b_enums b) (mkienv nd md sd se' (import_ext_muxes (bus_exts b))) st0 (map n_name (b_nodes b)) nodes' (b_messages b) st0 [])
     as [st' [msgs' [F1 [F2 [F3 [F4 [F5 F6]]]]]]]; try assumption; try reflexivity.
+  - intros m Hin. apply ext_ok_bus; assumption.
   - intros r [].
   - apply ProofsEnum.st_le_refl.
   - intros r Hr. rewrite Hnames'. apply in_or_app. left. apply in_map_iff in Hr. destruct Hr as [n [Hr Hin]]. subst r.
@@ -2028,9 +2494,10 @@ Definition example_mux_bus : bus :=
     [ mkmessage 256 "status" 4 LittleEndian 0 0 0 0 "ECU 1" ["GW"] "" []
         [ std_sig 0 "a" 0 8 None [] "first";
           mksignal 1 "mode sel" KMux 8 None [] 0 false fl_one fl_zero fl_zero fl_zero "" 0 4 16 "the switch" fl_zero 0 [];
-          std_sig 2 "c0" 0 8 (Some 1) [0] "";
+          std_sig 2 "c0" 0 8 (Some 1) [0; 2] "in two groups";
           mksignal 3 "c1" KEnum 0 (Some 1) [1] 0 false fl_one fl_zero fl_zero fl_zero "" 0 0 0 "an enum child" fl_zero 0 [];
-          std_sig 4 "c 2" 4 12 (Some 1) [1] "a described child";
+          std_sig 4 "c 2" 4 4 (Some 1) [1] "a described child";
+          std_sig 6 "fx" 8 8 (Some 1) [] "fixed: in every group";
           mksignal 5 "z" KEnum 26 None [] 0 false fl_one fl_zero fl_zero fl_zero "" 0 0 0 "an enum beside the switch" fl_zero 0 [] ];
       mkmessage 512 "other" 1 BigEndian 0 0 0 0 "GW" [] "second" []
         [ mksignal 0 "n" KEnum 0 None [] 0 false fl_one fl_zero fl_zero fl_zero "" 0 0 0 "" fl_zero 0 [] ] ].
@@ -2055,10 +2522,15 @@ Proof.
         { intros c Hc Ht. in_cases Hc; try (cbn in Ht; discriminate Ht);
             (eexists; split; [right; left; reflexivity|]; split; [reflexivity|]; split; [reflexivity|];
              unfold child_ok, std_sig; cbn [s_kind s_parent s_groups s_startval s_sendtype s_attrs s_size s_rel s_id s_gcount s_gsize];
-             refine (conj _ (conj eq_refl (conj (ex_intro _ _ (conj eq_refl _)) (conj eq_refl (conj eq_refl (conj eq_refl (conj _ (conj _ _))))))));
-             [discriminate|lia|intros Hc; first [lia|discriminate Hc]|lia|vm_compute; intros Hc; discriminate Hc]). }
-        { intros c c' Hc Hc' Ht Ht' Hne Hg. in_cases Hc; in_cases Hc'; try (cbn in Ht; discriminate Ht); try (cbn in Ht'; discriminate Ht');
-            try contradiction; try (cbn in Hg; discriminate Hg); vm_compute; first [left; intros Hc; discriminate Hc|right; intros Hc; discriminate Hc]. }
+             refine (conj _ (conj eq_refl (conj _ (conj eq_refl (conj eq_refl (conj eq_refl (conj _ (conj _ _))))))));
+             [discriminate
+             |unfold groups_ok; first [left; split; [reflexivity|lia]
+                                      |right; split; [discriminate|]; split; [cbn; lia|]; split; [intros g Hg; cbn in Hg; lia|cbn; lia]]
+             |intros Hc; first [lia|discriminate Hc]|lia|vm_compute; intros Hc; discriminate Hc]). }
+        { intros c c' Hc Hc' Ht Ht' Hne [g [Hg0 [Hg1 Hg2]]]. in_cases Hc; in_cases Hc'; try (cbn in Ht; discriminate Ht); try (cbn in Ht'; discriminate Ht');
+            try contradiction;
+            try (vm_compute; first [left; intros Hc; discriminate Hc|right; intros Hc; discriminate Hc]);
+            exfalso; unfold in_group, std_sig in Hg1, Hg2; cbn [s_groups mem_z existsb] in Hg1, Hg2; lia. }
       + cbn [filter is_topb std_sig s_parent]. cbn. repeat split; lia.
       + cbn; auto.
       + intros x Hx; cbn in Hx; cbn; intuition.
@@ -2089,5 +2561,5 @@ Example example_mux_bus_roundtrip :
   exists b', export_import example_mux_bus = Ok b' /\ proj_bus b' = proj_bus example_mux_bus /\
              map (fun m => map (fun s => (s_name s, s_rel s, s_parent s, s_groups s)) (m_signals m)) (b_messages b')
              = [[("a", 0, None, []); ("z", 26, None, []); ("mode_sel", 8, None, []);
-                 ("c0", 0, Some 1, [0]); ("c1", 0, Some 1, [1]); ("c_2", 4, Some 1, [1])]; [("n", 0, None, [])]].
+                 ("c0", 0, Some 1, [0; 2]); ("c1", 0, Some 1, [1]); ("c_2", 4, Some 1, [1]); ("fx", 8, Some 1, [])]; [("n", 0, None, [])]].
 Proof. eexists. split; [vm_compute; reflexivity|]. split; vm_compute; reflexivity. Qed.
